@@ -108,6 +108,12 @@ Definition thread_at (s : st) (t : tid) (pc : spc) : Prop :=
 
 Definition nested_t (t : tid) : bool := match t with TU => false | TC _ => true end.
 
+Lemma tid_eq_dec (a b : tid) : {a = b} + {a <> b}.
+Proof. decide equality. apply Nat.eq_dec. Qed.
+
+Lemma spc_eq_dec (a b : spc) : {a = b} + {a <> b}.
+Proof. decide equality; apply Nat.eq_dec. Qed.
+
 Lemma at_start_thread s pc : at_start s pc <-> exists t, thread_at s t pc.
 Proof.
   unfold at_start. split.
@@ -298,4 +304,1354 @@ Proof.
        try (unfold idle_user, user_start; simpl; rewrite Hu; auto; fail);
        try (intros; discriminate).
   all: try (match goal with |- context [match ?p with PDead => _ | _ => _ end] => destruct p end; simpl; auto; fail).
+Qed.
+
+(* ------------------------------------------------------------------ *)
+(* holders and threads                                                 *)
+Lemma stopped_no_holder s : Inv2 s -> stopped_b (s_status s) = true -> forall i, holder s i = false.
+Proof.
+  intros HI Hs i. unfold holder. destruct (s_cleans s i) as [pc|] eqn:E; [|reflexivity].
+  pose proof (j_clean s HI i pc E) as [_ Hc].
+  destruct pc as [| | |q| | | |]; try reflexivity.
+  - destruct (r_started (s_runs s i)); [|reflexivity]. destruct Hc as (_ & Hc & _). rewrite Hc in Hs. discriminate.
+  - exfalso. destruct Hc as (_ & Hc & _). rewrite Hc in Hs. discriminate.
+  - exfalso. destruct Hc as (_ & Hc & _). rewrite Hc in Hs. discriminate.
+  - exfalso. destruct Hc as (_ & Hc & _). destruct q; simpl in Hc; unfold pre_status in Hc;
+      try (rewrite Hc in Hs; discriminate);
+      try (destruct Hc as (Hc & _); rewrite Hc in Hs; discriminate); try contradiction.
+  - exfalso. destruct Hc as (_ & Hc & _). rewrite Hc in Hs. discriminate.
+Qed.
+
+Definition set_thread (s : st) (t : tid) (pc : spc) : st :=
+  match t with
+  | TU => match s_user s with Some (id, k, _) => with_user s (Some (id, k, UStart pc)) | None => s end
+  | TC i => set_clean s i (Some (CStart pc))
+  end.
+
+(* a thread that owns the lifecycle: the user's Start past its check, or any nested Start *)
+Definition owning (t : tid) (q : spc) : Prop := nested_t t = true \/ q <> SCheck.
+
+Lemma thread_ctx s t q :
+  Inv2 s -> thread_at s t q -> owning t q ->
+  (forall j, TC j <> t -> holder s j = false)
+  /\ (t <> TU -> user_holds s = false)
+  /\ spc_ok2 s q (nested_t t)
+  /\ (forall i, t = TC i -> i < s_next s /\ r_phase (s_runs s i) = PEnded /\ (before_publish2 q = true -> s_map s = Some i)).
+Proof.
+  intros HI Ht Ho. destruct t as [|i]; simpl in *.
+  - assert (Hh : user_holds s = true).
+    { unfold user_holds. rewrite Ht. destruct Ho as [Ho|Ho]; [discriminate|]. destruct q; auto; congruence. }
+    split; [|split; [|split]].
+    + intros j _. apply (j_excl s HI Hh).
+    + intros E. congruence.
+    + apply (j_user s HI q Ht).
+    + intros k E. discriminate.
+  - assert (Hh : holder s i = true) by (unfold holder; rewrite Ht; reflexivity).
+    pose proof (j_clean s HI i _ Ht) as (A & B & C & D).
+    split; [|split; [|split]].
+    + intros j Hj. destruct (holder s j) eqn:E; [|reflexivity]. exfalso. apply Hj. f_equal. apply (j_one s HI); auto.
+    + intros _. destruct (user_holds s) eqn:E; [|reflexivity]. rewrite (j_excl s HI E i) in Hh. discriminate.
+    + exact C.
+    + intros k E. inversion E. subst k. auto.
+Qed.
+
+Lemma user_idle_of_not_holding2 s : user_holds s = false -> idle_user (user_start s).
+Proof. apply user_idle_of_not_holding. Qed.
+
+Definition live_pc (pc : spc) : bool := match pc with SOpenDlq _ | SRollback _ | SSpawn _ => true | _ => false end.
+
+Lemma live_witness_pc s j : live_witness s j <-> exists pc, live_pc pc = true /\ pc_run pc = Some j /\ at_start s pc.
+Proof.
+  unfold live_witness. split.
+  - intros [H|[H|H]]; eexists; (split; [|split; [|exact H]]); reflexivity.
+  - intros [pc [A [B C]]]. destruct pc; simpl in A, B; try discriminate; inversion B; subst; auto.
+Qed.
+
+(* generic step of a Start thread t from q to q' (same run, or no run on both sides) *)
+Lemma thread_move_Inv2 s s1 t q q' :
+  Inv2 s -> thread_at s t q -> owning t q ->
+  s_user s1 = s_user s -> s_next s1 = s_next s -> s_status s1 = s_status s -> s_cur s1 = s_cur s ->
+  s_proc s1 = s_proc s ->
+  (forall j, pc_run q' <> Some j -> s_runs s1 j = s_runs s j /\ s_cleans s1 j = s_cleans s j) ->
+  (forall r, pc_run q' = Some r ->
+      (r_phase (s_runs s1 r) = r_phase (s_runs s r) \/ (r_phase (s_runs s r) = PNew /\ r_phase (s_runs s1 r) = PLive))
+      /\ (s_cleans s1 r = s_cleans s r \/ (s_cleans s r = None /\ s_cleans s1 r = Some CWait))
+      /\ (src_open (s_runs s1 r) = true -> src_open (s_runs s r) = true \/ q' = SOpenDlq r)
+      /\ (live_pc q = true -> live_pc q' = true \/ r_phase (s_runs s1 r) = PLive)) ->
+  (s_map s1 = s_map s \/ (exists r, q' = SStatus r /\ s_map s1 = Some r)) ->
+  pc_run q = pc_run q' -> q' <> SCheck -> before_publish2 q = true ->
+  spc_ok2 (set_thread s1 t q') q' (nested_t t) ->
+  Inv2 (set_thread s1 t q').
+Proof.
+  intros HI Ht Ho Eus Enx Est Ecu Epr Hoth Hrun Hmap Hqq Hq' Hbq Hok'.
+  destruct (thread_ctx s t q HI Ht Ho) as (C1 & C2 & Hok & C4).
+  pose proof HI as [H1 H2 H3 H4 H5 H6 H7 H8 H9 H10].
+  set (s' := set_thread s1 t q') in *.
+  (* projections of s' *)
+  assert (P_next : s_next s' = s_next s) by (unfold s', set_thread; destruct t; [destruct (s_user s1) as [[[? ?] ?]|]|]; simpl; auto).
+  assert (P_status : s_status s' = s_status s) by (unfold s', set_thread; destruct t; [destruct (s_user s1) as [[[? ?] ?]|]|]; simpl; auto).
+  assert (P_cur : s_cur s' = s_cur s) by (unfold s', set_thread; destruct t; [destruct (s_user s1) as [[[? ?] ?]|]|]; simpl; auto).
+  assert (P_proc : s_proc s' = s_proc s) by (unfold s', set_thread; destruct t; [destruct (s_user s1) as [[[? ?] ?]|]|]; simpl; auto).
+  assert (P_map : s_map s' = s_map s1) by (unfold s', set_thread; destruct t; [destruct (s_user s1) as [[[? ?] ?]|]|]; simpl; auto).
+  assert (P_runs : s_runs s' = s_runs s1) by (unfold s', set_thread; destruct t; [destruct (s_user s1) as [[[? ?] ?]|]|]; simpl; auto).
+  assert (P_cl : forall j, TC j <> t -> s_cleans s' j = s_cleans s1 j).
+  { intros j Hj. unfold s', set_thread. destruct t as [|i]; [destruct (s_user s1) as [[[? ?] ?]|]; reflexivity|].
+    simpl. unfold fupd. destruct (Nat.eqb j i) eqn:E; [apply Nat.eqb_eq in E; subst; congruence|reflexivity]. }
+  assert (P_cli : forall i, t = TC i -> s_cleans s' i = Some (CStart q')).
+  { intros i ->. unfold s'. simpl. unfold fupd. rewrite Nat.eqb_refl. reflexivity. }
+  assert (P_us : t <> TU -> user_start s' = user_start s).
+  { intros Hn. unfold s', set_thread. destruct t; [congruence|]. unfold user_start. simpl. rewrite Eus. reflexivity. }
+  assert (P_ut : t = TU -> user_start s' = Some q').
+  { intros ->. unfold s', set_thread. simpl in Ht. unfold user_start in Ht. rewrite <- Eus in Ht.
+    destruct (s_user s1) as [[[? ?] ?]|]; [reflexivity|discriminate]. }
+  (* the run of the thread is not the thread's own cleanup goroutine *)
+  assert (Hri : forall r i, pc_run q' = Some r -> t = TC i -> r <> i).
+  { intros r i Hr -> E. subst r. rewrite <- Hqq in Hr. simpl in Ht.
+    destruct q; simpl in Hr; inversion Hr; subst; simpl in Hok;
+      repeat match goal with H : _ /\ _ |- _ => destruct H end; try contradiction; congruence. }
+  assert (Hnow : at_start s' q').
+  { destruct t as [|i]; [left; apply P_ut; reflexivity|right; exists i; apply P_cli; reflexivity]. }
+  assert (Hat : forall pc, pc <> q -> at_start s pc -> at_start s' pc).
+  { intros pc Hpc [H|[j H]].
+    - destruct t as [|i]; [simpl in Ht; congruence|]. left. rewrite P_us by discriminate. exact H.
+    - destruct (tid_eq_dec (TC j) t) as [E|E].
+      + subst t. simpl in Ht. congruence.
+      + right. exists j. rewrite (P_cl j E).
+        destruct (option_eq_dec_nat (pc_run q') (Some j)) as [Er|Er].
+        * exfalso. rewrite <- Hqq in Er.
+          destruct q; simpl in Er; inversion Er; subst; simpl in Hok;
+            repeat match goal with H : _ /\ _ |- _ => destruct H end; try contradiction; congruence.
+        * rewrite (proj2 (Hoth j Er)). exact H. }
+  (* the thread's run, seen from the new position *)
+  assert (Hst' : forall r, pc_run q' = Some r -> r_started (s_runs s1 r) = false /\ r < s_next s).
+  { intros r Hr. rewrite <- P_runs. rewrite <- P_next.
+    destruct q'; simpl in Hr; inversion Hr; subst; simpl in Hok';
+      repeat match goal with H : _ /\ _ |- _ => destruct H end; try contradiction; auto. }
+  assert (Hhold : forall j, TC j <> t -> holder s' j = false).
+  { intros j Hj. unfold holder. rewrite (P_cl j Hj), P_runs.
+    destruct (option_eq_dec_nat (pc_run q') (Some j)) as [Er|Er].
+    - destruct (Hst' j Er) as [A _]. rewrite A.
+      destruct (Hrun j Er) as (_ & [B|[_ B]] & _); [|rewrite B; reflexivity].
+      rewrite B. pose proof (C1 j Hj) as Hh. unfold holder in Hh.
+      assert (Es : r_started (s_runs s j) = false).
+      { rewrite <- Hqq in Er. destruct q; simpl in Er; inversion Er; subst; simpl in Hok;
+          repeat match goal with H : _ /\ _ |- _ => destruct H end; try contradiction; auto. }
+      rewrite Es in Hh. destruct (s_cleans s j) as [[]|]; auto.
+    - destruct (Hoth j Er) as [A B]. rewrite A, B. apply C1. exact Hj. }
+  constructor.
+  - intros a b Ha Hb.
+    destruct (tid_eq_dec (TC a) t) as [Ea|Ea]; [|rewrite (Hhold a Ea) in Ha; discriminate].
+    destruct (tid_eq_dec (TC b) t) as [Eb|Eb]; [|rewrite (Hhold b Eb) in Hb; discriminate].
+    congruence.
+  - intros Hu a. destruct (tid_eq_dec (TC a) t) as [Ea|Ea]; [|apply Hhold; exact Ea].
+    exfalso. subst t. unfold user_holds in Hu. rewrite P_us in Hu by discriminate.
+    specialize (C2 ltac:(discriminate)). unfold user_holds in C2. congruence.
+  - intros pc Hpc. destruct t as [|i].
+    + rewrite (P_ut eq_refl) in Hpc. inversion Hpc. subst pc. exact Hok'.
+    + rewrite P_us in Hpc by discriminate.
+      destruct (user_idle_of_not_holding s (C2 ltac:(discriminate))) as [E|E]; rewrite E in Hpc; inversion Hpc. exact I.
+  - intros j pc Hj. destruct (tid_eq_dec (TC j) t) as [Ej|Ej].
+    + subst t. rewrite (P_cli j eq_refl) in Hj. inversion Hj. subst pc.
+      destruct (C4 j eq_refl) as (A & B & C). unfold clean_ok2. rewrite P_next. split; [exact A|].
+      assert (Er : pc_run q' <> Some j) by (intros E; eapply Hri; eauto).
+      rewrite P_runs, (proj1 (Hoth j Er)). split; [exact B|]. split; [exact Hok'|].
+      intros Hb. rewrite P_map. destruct Hmap as [Hm|[r [Hr Hm]]]; [rewrite Hm; apply C; exact Hbq|].
+      subst q'. discriminate.
+    + rewrite (P_cl j Ej) in Hj.
+      destruct (option_eq_dec_nat (pc_run q') (Some j)) as [Er|Er].
+      * (* the thread's run *)
+        destruct (Hst' j Er) as [Hs Hlt]. unfold clean_ok2. rewrite P_next. split; [exact Hlt|].
+        assert (Hpc : pc = CWait /\ alive (s_runs s1 j) /\ (q' = SPublish j \/ q' = SStatus j)).
+        { rewrite <- P_runs. rewrite <- (P_cl j Ej) in Hj.
+          destruct q'; simpl in Er; inversion Er; subst; simpl in Hok';
+            repeat match goal with H : _ /\ _ |- _ => destruct H end; try contradiction; try congruence;
+            (split; [congruence|split; [assumption|auto]]). }
+        destruct Hpc as (-> & Hal & Hq2). rewrite P_runs. split; [exact Hal|]. rewrite Hs.
+        destruct Hq2 as [Hq2|Hq2]; [left|right]; rewrite <- Hq2; exact Hnow.
+      * destruct (Hoth j Er) as [A B]. rewrite B in Hj. pose proof (H4 j pc Hj) as [Hlt Hc].
+        pose proof (C1 j Ej) as Hh. unfold holder in Hh. rewrite Hj in Hh.
+        unfold clean_ok2. rewrite P_next, P_runs, A, P_status, P_cur, P_map. split; [exact Hlt|].
+        destruct pc as [| | |q0| |e|e|e]; try discriminate; try exact Hc.
+        -- destruct Hc as [Hc1 Hc2]. split; [exact Hc1|]. rewrite Hh in Hc2 |- *.
+           destruct Hc2 as [Hc2|Hc2]; [left|right]; (apply Hat; [|exact Hc2]); intros E; subst q;
+             apply Er; rewrite <- Hqq; reflexivity.
+        -- destruct Hc as [Hc1 Hc2]. split; [exact Hc1|].
+           destruct Hmap as [Hm|[r [Hr Hm]]]; [rewrite Hm; exact Hc2|]. rewrite Hm. subst q'. simpl in Er. congruence.
+  - intros Hu Hall. exfalso. destruct t as [|i].
+    + unfold user_holds in Hu. rewrite (P_ut eq_refl) in Hu. destruct q'; try discriminate. congruence.
+    + specialize (Hall i). unfold holder in Hall. rewrite (P_cli i eq_refl) in Hall. discriminate.
+  - intros m Hm. rewrite P_map in Hm. unfold map_owned2.
+    destruct (tid_eq_dec (TC m) t) as [Em|Em].
+    + subst t. rewrite (P_cli m eq_refl). eexists. split; [reflexivity|exact I].
+    + rewrite (P_cl m Em). destruct Hmap as [Hm1|[r [Hr Hm1]]].
+      * rewrite Hm1 in Hm. destruct (H6 m Hm) as [pc [A B]].
+        destruct (option_eq_dec_nat (pc_run q') (Some m)) as [Er|Er].
+        -- destruct (Hrun m Er) as (_ & [C|[C _]] & _); [rewrite C; exists pc; auto|congruence].
+        -- rewrite (proj2 (Hoth m Er)). exists pc. auto.
+      * rewrite Hm1 in Hm. inversion Hm. subst m. subst q'. simpl in Hok'.
+        destruct Hok' as (_ & _ & _ & _ & A & _). rewrite (P_cl r Em) in A. rewrite A. exists CWait. auto.
+  - intros j Hj. rewrite P_next in Hj. unfold run_ok2. rewrite P_runs.
+    destruct (tid_eq_dec (TC j) t) as [Ej|Ej].
+    + subst t. rewrite (P_cli j eq_refl).
+      assert (Er : pc_run q' <> Some j) by (intros E; eapply Hri; eauto).
+      rewrite (proj1 (Hoth j Er)). destruct (C4 j eq_refl) as (_ & B & _). rewrite B. discriminate.
+    + rewrite (P_cl j Ej). destruct (option_eq_dec_nat (pc_run q') (Some j)) as [Er|Er].
+      * rewrite <- P_runs. rewrite <- (P_cl j Ej).
+        destruct q'; simpl in Er; inversion Er; subst; simpl in Hok';
+          repeat match goal with H : _ /\ _ |- _ => destruct H end; try contradiction;
+          try (match goal with H : r_phase _ = PNew |- _ => rewrite H; assumption end);
+          (match goal with H : alive _ |- _ => destruct H as [H|H]; rewrite H end;
+           match goal with H : s_cleans _ _ = Some CWait |- _ => rewrite H; discriminate end).
+      * destruct (Hoth j Er) as [A B]. rewrite A, B. apply H7. exact Hj.
+  - intros j Hj. rewrite P_next in Hj.
+    assert (Ej : TC j <> t).
+    { intros E. subst t. destruct (C4 j eq_refl) as (A & _). lia. }
+    rewrite (P_cl j Ej).
+    assert (Er : pc_run q' <> Some j) by (intros E; destruct (Hst' j E); lia).
+    rewrite (proj2 (Hoth j Er)). apply H8. exact Hj.
+  - intros j Hj. rewrite P_runs in Hj. rewrite P_next, P_runs.
+    destruct (option_eq_dec_nat (pc_run q') (Some j)) as [Er|Er].
+    + destruct (Hst' j Er) as [_ Hlt]. split; [exact Hlt|].
+      destruct (Hrun j Er) as ([Hp|[_ Hp]] & _ & Hsrc & Hlp); [|left; exact Hp].
+      destruct (live_pc q') eqn:Elq.
+      * destruct (r_phase (s_runs s1 j)) eqn:Ep1; auto.
+        -- right. split; [reflexivity|]. apply live_witness_pc. exists q'. auto.
+        -- exfalso. rewrite <- P_runs in Ep1.
+           destruct q'; simpl in Er, Elq; inversion Er; subst; try discriminate; simpl in Hok';
+             repeat match goal with H : _ /\ _ |- _ => destruct H end; congruence.
+        -- exfalso. rewrite <- P_runs in Ep1.
+           destruct q'; simpl in Er, Elq; inversion Er; subst; try discriminate; simpl in Hok';
+             repeat match goal with H : _ /\ _ |- _ => destruct H end; congruence.
+      * destruct (Hsrc Hj) as [Ho1|Ho1]; [|subst q'; discriminate].
+        destruct (H9 j Ho1) as [_ [B|[B C]]]; [left; congruence|].
+        apply live_witness_pc in C. destruct C as [pc [C1' [C2' C3']]].
+        destruct (spc_eq_dec pc q) as [->|Hne].
+        -- destruct (Hlp C1') as [D|D]; [congruence|left; exact D].
+        -- right. split; [congruence|]. apply live_witness_pc. exists pc. auto.
+    + destruct (Hoth j Er) as [A _]. rewrite A in Hj |- *. destruct (H9 j Hj) as [B [C|[C D]]]; (split; [exact B|]); [left; exact C|].
+      right. split; [exact C|]. apply live_witness_pc in D. destruct D as [pc [D1 [D2 D3]]].
+      apply live_witness_pc. exists pc. repeat split; auto. apply Hat; [|exact D3].
+      intros E. subst pc. apply Er. rewrite <- Hqq. exact D2.
+  - intros p Hp. rewrite P_proc in Hp. rewrite P_next, P_runs. destruct (H10 p Hp) as [A B]. split; [exact A|].
+    destruct (option_eq_dec_nat (pc_run q') (Some p)) as [Er|Er].
+    + destruct (Hrun p Er) as ([Hph|[_ Hph]] & _); [|left; exact Hph].
+      rewrite Hph. destruct B as [B|[B _]]; [left; exact B|right; split; [exact B|]]. exists q'. auto.
+    + rewrite (proj1 (Hoth p Er)). destruct B as [B|[B [pc [C D]]]]; [left; exact B|right; split; [exact B|]].
+      exists pc. split; [exact C|]. apply Hat; [|exact D]. intros E. subst pc. apply Er. rewrite <- Hqq. exact C.
+Qed.
+
+(* ------------------------------------------------------------------ *)
+(* the user's Start takes its status check                             *)
+Lemma user_check_Inv2 s id k :
+  Inv2 s -> s_user s = Some (id, k, UStart SCheck) ->
+  status_eqb (s_status s) Running = false -> s_status s <> Recovering ->
+  Inv2 (with_user s (Some (id, k, UStart SBuild))).
+Proof.
+  intros HI Hu Hr Hrec.
+  assert (Hst : stopped_b (s_status s) = true) by (destruct (s_status s); simpl in *; congruence).
+  pose proof (stopped_no_holder s HI Hst) as Hno.
+  destruct HI as [H1 H2 H3 H4 H5 H6 H7 H8 H9 H10].
+  assert (Hus : user_start s = Some SCheck) by (unfold user_start; rewrite Hu; reflexivity).
+  assert (Hat : forall pc, at_start s pc -> pc <> SCheck -> at_start (with_user s (Some (id, k, UStart SBuild))) pc).
+  { intros pc Hp Hn. apply at_start_other; [exact Hp|]. rewrite Hus. congruence. }
+  constructor; simpl.
+  - exact H1.
+  - intros _. exact Hno.
+  - unfold user_start. simpl. intros pc Hpc. inversion Hpc. subst. simpl. exact Hst.
+  - intros i pc Hi. specialize (H4 i pc Hi). unfold clean_ok2 in *. simpl.
+    destruct H4 as [A B]. split; [exact A|]. destruct pc; auto.
+    destruct B as [B1 B2]. split; [exact B1|]. destruct (r_started (s_runs s i)); [exact B2|].
+    destruct B2 as [B2|B2]; [left|right]; apply Hat; auto; discriminate.
+  - intros _ _. exact Hst.
+  - exact H6.
+  - exact H7.
+  - exact H8.
+  - intros i Hi. destruct (H9 i Hi) as [A B]. split; [exact A|]. destruct B as [B|[B C]]; [left; exact B|right; split; [exact B|]].
+    unfold live_witness in *. destruct C as [C|[C|C]]; [left|right; left|right; right]; apply Hat; auto; discriminate.
+  - intros p Hp. destruct (H10 p Hp) as [A B]. split; [exact A|].
+    destruct B as [B|[B [pc [C D]]]]; [left; exact B|right; split; [exact B|]]. exists pc. split; [exact C|].
+    apply Hat; [exact D|]. intros E. subst pc. discriminate.
+Qed.
+
+(* ------------------------------------------------------------------ *)
+(* SBuild: a fresh run is created                                      *)
+Lemma thread_build_Inv2 s t (proc : bool) :
+  Inv2 s -> thread_at s t SBuild ->
+  (proc = true -> s_proc s = None) ->
+  let r := s_next s in
+  let s1 := with_next (upd_run s r new_run) (S r) in
+  let s2 := if proc then with_proc s1 (Some r) else s1 in
+  Inv2 (set_thread s2 t (SClear r)).
+Proof.
+  intros HI Ht Hpn r s1 s2.
+  assert (Ho : owning t SBuild) by (right; discriminate).
+  destruct (thread_ctx s t SBuild HI Ht Ho) as (C1 & C2 & Hok & C4).
+  pose proof HI as [H1 H2 H3 H4 H5 H6 H7 H8 H9 H10].
+  set (s' := set_thread s2 t (SClear r)).
+  assert (Q_us : s_user s2 = s_user s) by (unfold s2, s1; destruct proc; reflexivity).
+  assert (P_next : s_next s' = S r) by (unfold s', set_thread, s2, s1; destruct t; [destruct proc; simpl; destruct (s_user s) as [[[? ?] ?]|]|destruct proc]; simpl; auto).
+  assert (P_status : s_status s' = s_status s) by (unfold s', set_thread, s2, s1; destruct t; [destruct proc; simpl; destruct (s_user s) as [[[? ?] ?]|]|destruct proc]; simpl; auto).
+  assert (P_cur : s_cur s' = s_cur s) by (unfold s', set_thread, s2, s1; destruct t; [destruct proc; simpl; destruct (s_user s) as [[[? ?] ?]|]|destruct proc]; simpl; auto).
+  assert (P_map : s_map s' = s_map s) by (unfold s', set_thread, s2, s1; destruct t; [destruct proc; simpl; destruct (s_user s) as [[[? ?] ?]|]|destruct proc]; simpl; auto).
+  assert (P_proc : s_proc s' = if proc then Some r else s_proc s) by (unfold s', set_thread, s2, s1; destruct t; [destruct proc; simpl; destruct (s_user s) as [[[? ?] ?]|]|destruct proc]; simpl; auto).
+  assert (P_runs : s_runs s' = fupd (s_runs s) r new_run) by (unfold s', set_thread, s2, s1; destruct t; [destruct proc; simpl; destruct (s_user s) as [[[? ?] ?]|]|destruct proc]; simpl; auto).
+  assert (P_cl : forall j, TC j <> t -> s_cleans s' j = s_cleans s j).
+  { intros j Hj. unfold s', set_thread. destruct t as [|i].
+    - unfold s2, s1. destruct proc; simpl; destruct (s_user s) as [[[? ?] ?]|]; reflexivity.
+    - simpl. unfold fupd. destruct (Nat.eqb j i) eqn:E; [apply Nat.eqb_eq in E; subst; congruence|].
+      unfold s2, s1. destruct proc; reflexivity. }
+  assert (P_cli : forall i, t = TC i -> s_cleans s' i = Some (CStart (SClear r))).
+  { intros i ->. unfold s'. simpl. unfold fupd. rewrite Nat.eqb_refl. reflexivity. }
+  assert (P_us : t <> TU -> user_start s' = user_start s).
+  { intros Hn. unfold s', set_thread. destruct t; [congruence|]. unfold user_start. simpl. rewrite Q_us. reflexivity. }
+  assert (P_ut : t = TU -> user_start s' = Some (SClear r)).
+  { intros ->. unfold s', set_thread. simpl in Ht. unfold user_start in Ht. rewrite <- Q_us in Ht.
+    destruct (s_user s2) as [[[? ?] ?]|]; [reflexivity|discriminate]. }
+  assert (Hold : forall j, j < s_next s -> fupd (s_runs s) r new_run j = s_runs s j).
+  { intros j Hj. unfold fupd. destruct (Nat.eqb j r) eqn:E; [apply Nat.eqb_eq in E; unfold r in E; lia|reflexivity]. }
+  assert (Hnew : fupd (s_runs s) r new_run r = new_run) by (unfold fupd; rewrite Nat.eqb_refl; reflexivity).
+  assert (Hri : forall i, t = TC i -> i < r) by (intros i E; destruct (C4 i E) as [A _]; exact A).
+  assert (Hnow : at_start s' (SClear r)).
+  { destruct t as [|i]; [left; apply P_ut; reflexivity|right; exists i; apply P_cli; reflexivity]. }
+  assert (Hat : forall pc, pc <> SBuild -> at_start s pc -> at_start s' pc).
+  { intros pc Hpc [H|[j H]].
+    - destruct t as [|i]; [simpl in Ht; congruence|]. left. rewrite P_us by discriminate. exact H.
+    - destruct (tid_eq_dec (TC j) t) as [E|E].
+      + subst t. simpl in Ht. congruence.
+      + right. exists j. rewrite (P_cl j E). exact H. }
+  assert (Hhold : forall j, TC j <> t -> holder s' j = false).
+  { intros j Hj. unfold holder. rewrite (P_cl j Hj), P_runs.
+    destruct (Nat.lt_ge_cases j (s_next s)) as [A|A].
+    - rewrite (Hold j A). apply C1. exact Hj.
+    - rewrite (H8 j A). reflexivity. }
+  assert (Hpre : pre_status s (nested_t t)) by exact Hok.
+  assert (Hpre' : pre_status s' (nested_t t)) by (unfold pre_status in *; rewrite P_status; exact Hpre).
+  constructor.
+  - intros a b Ha Hb.
+    destruct (tid_eq_dec (TC a) t) as [Ea|Ea]; [|rewrite (Hhold a Ea) in Ha; discriminate].
+    destruct (tid_eq_dec (TC b) t) as [Eb|Eb]; [|rewrite (Hhold b Eb) in Hb; discriminate].
+    congruence.
+  - intros Hu a. destruct (tid_eq_dec (TC a) t) as [Ea|Ea]; [|apply Hhold; exact Ea].
+    exfalso. subst t. unfold user_holds in Hu. rewrite P_us in Hu by discriminate.
+    specialize (C2 ltac:(discriminate)). unfold user_holds in C2. congruence.
+  - intros pc Hpc. destruct t as [|i].
+    + rewrite (P_ut eq_refl) in Hpc. inversion Hpc. subst pc. unfold spc_ok2. rewrite P_next, P_runs, Hnew.
+      rewrite (P_cl r ltac:(discriminate)). repeat split; auto; try (apply H8; unfold r; lia).
+    + rewrite P_us in Hpc by discriminate.
+      destruct (user_idle_of_not_holding s (C2 ltac:(discriminate))) as [E|E]; rewrite E in Hpc; inversion Hpc. exact I.
+  - intros j pc Hj. destruct (tid_eq_dec (TC j) t) as [Ej|Ej].
+    + subst t. rewrite (P_cli j eq_refl) in Hj. inversion Hj. subst pc.
+      destruct (C4 j eq_refl) as (A & B & C). unfold clean_ok2. rewrite P_next. split; [lia|].
+      rewrite P_runs, (Hold j A). split; [exact B|]. split.
+      * assert (Ecr : s_cleans s' r = None).
+        { rewrite (P_cl r); [apply H8; unfold r; lia|]. intros E. inversion E. specialize (Hri j eq_refl). lia. }
+        unfold spc_ok2. rewrite P_runs, Hnew, Ecr, P_next. repeat split; auto.
+      * intros _. rewrite P_map. apply C. reflexivity.
+    + rewrite (P_cl j Ej) in Hj. pose proof (H4 j pc Hj) as [Hlt Hc].
+      pose proof (C1 j Ej) as Hh. unfold holder in Hh. rewrite Hj in Hh.
+      unfold clean_ok2. rewrite P_next, P_runs, (Hold j Hlt), P_status, P_cur, P_map. split; [lia|].
+      destruct pc as [| | |q0| |e|e|e]; try discriminate; try exact Hc.
+      destruct Hc as [Hc1 Hc2]. split; [exact Hc1|]. rewrite Hh in Hc2 |- *.
+      destruct Hc2 as [Hc2|Hc2]; [left|right]; (apply Hat; [discriminate|exact Hc2]).
+  - intros Hu Hall. exfalso. destruct t as [|i].
+    + unfold user_holds in Hu. rewrite (P_ut eq_refl) in Hu. discriminate.
+    + specialize (Hall i). unfold holder in Hall. rewrite (P_cli i eq_refl) in Hall. discriminate.
+  - intros m Hm. rewrite P_map in Hm. unfold map_owned2. destruct (H6 m Hm) as [pc [A B]].
+    destruct (tid_eq_dec (TC m) t) as [Em|Em].
+    + subst t. rewrite (P_cli m eq_refl). eexists. split; [reflexivity|exact I].
+    + rewrite (P_cl m Em). exists pc. auto.
+  - intros j Hj. rewrite P_next in Hj. unfold run_ok2. rewrite P_runs.
+    destruct (Nat.eq_dec j r) as [->|Hne].
+    + rewrite Hnew. simpl. rewrite P_cl; [apply H8; unfold r; lia|]. intros E. subst t. specialize (Hri r eq_refl). lia.
+    + assert (Hj' : j < s_next s) by (unfold r in *; lia). rewrite (Hold j Hj').
+      destruct (tid_eq_dec (TC j) t) as [Ej|Ej].
+      * subst t. rewrite (P_cli j eq_refl). destruct (C4 j eq_refl) as (_ & B & _). rewrite B. discriminate.
+      * rewrite (P_cl j Ej). apply H7. exact Hj'.
+  - intros j Hj. rewrite P_next in Hj. rewrite P_cl; [apply H8; unfold r in Hj; lia|].
+    intros E. subst t. specialize (Hri j eq_refl). lia.
+  - intros j Hj. rewrite P_runs in Hj. rewrite P_next, P_runs. unfold fupd in *. destruct (Nat.eqb j r) eqn:E.
+    + simpl in Hj. discriminate.
+    + destruct (H9 j Hj) as [A B]. split; [unfold r; lia|].
+      destruct B as [B|[B C]]; [left; exact B|right; split; [exact B|]].
+      unfold live_witness in *. destruct C as [C|[C|C]]; [left|right; left|right; right]; apply Hat; auto; discriminate.
+  - intros p Hp. rewrite P_proc in Hp. rewrite P_next, P_runs. destruct proc.
+    + inversion Hp. subst p. split; [lia|]. rewrite Hnew. right. split; [reflexivity|]. exists (SClear r). auto.
+    + destruct (H10 p Hp) as [A B]. split; [unfold r; lia|]. rewrite (Hold p A).
+      destruct B as [B|[B [pc [C D]]]]; [left; exact B|right; split; [exact B|]]. exists pc. split; [exact C|].
+      apply Hat; [|exact D]. intros E. subst pc. discriminate.
+Qed.
+
+(* while a thread owns the lifecycle, every other Start stands at its status check *)
+Lemma other_threads s t q :
+  Inv2 s -> thread_at s t q -> owning t q -> forall pc, at_start s pc -> pc = q \/ pc = SCheck.
+Proof.
+  intros HI Ht Ho pc Hpc. destruct (thread_ctx s t q HI Ht Ho) as (C1 & C2 & _ & _).
+  apply at_start_thread in Hpc. destruct Hpc as [t2 Ht2].
+  destruct (tid_eq_dec t2 t) as [->|Hne]; [left; eapply thread_at_fun; eauto|].
+  destruct t2 as [|j]; simpl in Ht2.
+  - right. specialize (C2 ltac:(congruence)).
+    destruct (user_idle_of_not_holding s C2) as [E|E]; rewrite E in Ht2; congruence.
+  - exfalso. pose proof (C1 j Hne) as Hh. unfold holder in Hh. rewrite Ht2 in Hh. discriminate.
+Qed.
+
+Lemma spc_pre s q n : spc_ok2 s q n -> (n = true \/ q <> SCheck) -> pre_status s n.
+Proof.
+  intros H Ho. destruct q; simpl in H; try contradiction; try (destruct H as [H _]; exact H); try exact H.
+  destruct n; [exact H|]. destruct Ho; congruence.
+Qed.
+
+Definition pre_spawn (pc : spc) : bool :=
+  match pc with SBuild | SClear _ | SOpenA _ | SOpenSrc _ | SOpenDlq _ | SRollback _ | SSpawn _ => true | _ => false end.
+
+Definition end_fail (s : st) (t : tid) (x : retc) : st :=
+  match t with
+  | TU => match s_user s with Some (id, k, _) => with_user s (Some (id, k, URet x)) | None => s end
+  | TC i => set_clean s i (Some CFailed)
+  end.
+
+(* a Start that fails before anything was published (a guard is taken, an open fails) *)
+Lemma thread_abort_Inv2 s s1 t q x :
+  Inv2 s -> thread_at s t q -> owning t q -> pre_spawn q = true ->
+  s_user s1 = s_user s -> s_next s1 = s_next s -> s_status s1 = s_status s -> s_cur s1 = s_cur s ->
+  s_map s1 = s_map s -> s_cleans s1 = s_cleans s ->
+  (forall j, r_phase (s_runs s1 j) = r_phase (s_runs s j) /\ r_started (s_runs s1 j) = r_started (s_runs s j)
+             /\ (src_open (s_runs s1 j) = true -> src_open (s_runs s j) = true)) ->
+  (forall r, pc_run q = Some r -> live_pc q = true -> src_open (s_runs s1 r) = false) ->
+  (forall p, s_proc s1 = Some p -> s_proc s = Some p /\ pc_run q <> Some p) ->
+  Inv2 (end_fail s1 t x).
+Proof.
+  intros HI Ht Ho Hps Eus Enx Est Ecu Emp Ecl Hru Hclose Hpr.
+  destruct (thread_ctx s t q HI Ht Ho) as (C1 & C2 & Hok & C4).
+  assert (Hown : nested_t t = true \/ q <> SCheck) by exact Ho.
+  pose proof (spc_pre s q _ Hok Hown) as Hpre.
+  pose proof HI as [H1 H2 H3 H4 H5 H6 H7 H8 H9 H10].
+  set (s' := end_fail s1 t x).
+  assert (P_next : s_next s' = s_next s) by (unfold s', end_fail; destruct t; [destruct (s_user s1) as [[[? ?] ?]|]|]; simpl; auto).
+  assert (P_status : s_status s' = s_status s) by (unfold s', end_fail; destruct t; [destruct (s_user s1) as [[[? ?] ?]|]|]; simpl; auto).
+  assert (P_cur : s_cur s' = s_cur s) by (unfold s', end_fail; destruct t; [destruct (s_user s1) as [[[? ?] ?]|]|]; simpl; auto).
+  assert (P_map : s_map s' = s_map s) by (unfold s', end_fail; destruct t; [destruct (s_user s1) as [[[? ?] ?]|]|]; simpl; auto).
+  assert (P_proc : s_proc s' = s_proc s1) by (unfold s', end_fail; destruct t; [destruct (s_user s1) as [[[? ?] ?]|]|]; simpl; auto).
+  assert (P_runs : s_runs s' = s_runs s1) by (unfold s', end_fail; destruct t; [destruct (s_user s1) as [[[? ?] ?]|]|]; simpl; auto).
+  assert (P_cl : forall j, TC j <> t -> s_cleans s' j = s_cleans s j).
+  { intros j Hj. unfold s', end_fail. destruct t as [|i]; [destruct (s_user s1) as [[[? ?] ?]|]; simpl; rewrite Ecl; reflexivity|].
+    simpl. unfold fupd. destruct (Nat.eqb j i) eqn:E; [apply Nat.eqb_eq in E; subst; congruence|rewrite Ecl; reflexivity]. }
+  assert (P_cli : forall i, t = TC i -> s_cleans s' i = Some CFailed).
+  { intros i ->. unfold s'. simpl. unfold fupd. rewrite Nat.eqb_refl. reflexivity. }
+  assert (P_us : t <> TU -> user_start s' = user_start s).
+  { intros Hn. unfold s', end_fail. destruct t; [congruence|]. unfold user_start. simpl. rewrite Eus. reflexivity. }
+  assert (P_ut : t = TU -> user_start s' = None).
+  { intros ->. unfold s', end_fail. simpl in Ht. unfold user_start in Ht |- *. rewrite <- Eus in Ht.
+    destruct (s_user s1) as [[[? ?] ?]|]; [reflexivity|discriminate]. }
+  assert (P_uh : user_holds s' = false).
+  { unfold user_holds. destruct t as [|i]; [rewrite (P_ut eq_refl); reflexivity|].
+    rewrite P_us by discriminate. apply (C2 ltac:(discriminate)). }
+  assert (Hat : forall pc, pc <> q -> at_start s pc -> at_start s' pc).
+  { intros pc Hpc [H|[j H]].
+    - destruct t as [|i]; [simpl in Ht; congruence|]. left. rewrite P_us by discriminate. exact H.
+    - destruct (tid_eq_dec (TC j) t) as [E|E].
+      + subst t. simpl in Ht. congruence.
+      + right. exists j. rewrite (P_cl j E). exact H. }
+  assert (Hhold : forall j, TC j <> t -> holder s' j = false).
+  { intros j Hj. unfold holder. rewrite (P_cl j Hj), P_runs. rewrite (proj1 (proj2 (Hru j))). apply C1. exact Hj. }
+  assert (Hqn : forall j, q <> SPublish j /\ q <> SStatus j) by (intros j; split; intros E; subst q; discriminate).
+  constructor.
+  - intros a b Ha Hb.
+    destruct (tid_eq_dec (TC a) t) as [Ea|Ea]; [|rewrite (Hhold a Ea) in Ha; discriminate].
+    destruct (tid_eq_dec (TC b) t) as [Eb|Eb]; [|rewrite (Hhold b Eb) in Hb; discriminate].
+    congruence.
+  - rewrite P_uh. discriminate.
+  - intros pc Hpc. destruct t as [|i].
+    + rewrite (P_ut eq_refl) in Hpc. discriminate.
+    + rewrite P_us in Hpc by discriminate.
+      destruct (user_idle_of_not_holding s (C2 ltac:(discriminate))) as [E|E]; rewrite E in Hpc; inversion Hpc. exact I.
+  - intros j pc Hj. destruct (tid_eq_dec (TC j) t) as [Ej|Ej].
+    + subst t. rewrite (P_cli j eq_refl) in Hj. inversion Hj. subst pc.
+      destruct (C4 j eq_refl) as (A & B & C). unfold clean_ok2. rewrite P_next, P_runs, P_status, P_map.
+      rewrite (proj1 (Hru j)). repeat split; auto. apply C. destruct q; simpl in Hps |- *; congruence.
+    + rewrite (P_cl j Ej) in Hj. pose proof (H4 j pc Hj) as [Hlt Hc].
+      pose proof (C1 j Ej) as Hh. unfold holder in Hh. rewrite Hj in Hh.
+      unfold clean_ok2. rewrite P_next, P_runs, P_status, P_cur, P_map. split; [exact Hlt|].
+      destruct (Hru j) as (Rp & Rs & _). unfold alive. rewrite Rp, Rs.
+      destruct pc as [| | |q0| |e|e|e]; try discriminate; try exact Hc.
+      destruct Hc as [Hc1 Hc2]. split; [exact Hc1|]. rewrite Hh in Hc2 |- *.
+      destruct Hc2 as [Hc2|Hc2]; [left|right]; (apply Hat; [|exact Hc2]); intros E; destruct (Hqn j); congruence.
+  - intros _ Hall. rewrite P_status. destruct t as [|i].
+    + exact Hpre.
+    + exfalso. specialize (Hall i). unfold holder in Hall. rewrite (P_cli i eq_refl) in Hall. discriminate.
+  - intros m Hm. rewrite P_map in Hm. unfold map_owned2. destruct (H6 m Hm) as [pc [A B]].
+    destruct (tid_eq_dec (TC m) t) as [Em|Em].
+    + subst t. rewrite (P_cli m eq_refl). eexists. split; [reflexivity|exact I].
+    + rewrite (P_cl m Em). exists pc. auto.
+  - intros j Hj. rewrite P_next in Hj. unfold run_ok2. rewrite P_runs, (proj1 (Hru j)).
+    destruct (tid_eq_dec (TC j) t) as [Ej|Ej].
+    + subst t. rewrite (P_cli j eq_refl). destruct (C4 j eq_refl) as (_ & B & _). rewrite B. discriminate.
+    + rewrite (P_cl j Ej). apply H7. exact Hj.
+  - intros j Hj. rewrite P_next in Hj. rewrite P_cl; [apply H8; exact Hj|].
+    intros E. subst t. destruct (C4 j eq_refl) as (A & _). lia.
+  - intros j Hj. rewrite P_runs in Hj. rewrite P_next, P_runs. destruct (Hru j) as (Rp & _ & Ro). rewrite Rp.
+    destruct (H9 j (Ro Hj)) as [A B]. split; [exact A|].
+    destruct B as [B|[B C]]; [left; exact B|right; split; [exact B|]].
+    apply live_witness_pc in C. destruct C as [pc [D1 [D2 D3]]]. apply live_witness_pc.
+    exists pc. repeat split; auto. apply Hat; [|exact D3]. intros E. subst pc.
+    rewrite (Hclose j D2 D1) in Hj. discriminate.
+  - intros p Hp. rewrite P_proc in Hp. rewrite P_next, P_runs. destruct (Hpr p Hp) as [A B]. rewrite (proj1 (Hru p)).
+    destruct (H10 p A) as [C D]. split; [exact C|].
+    destruct D as [D|[D [pc [E F]]]]; [left; exact D|right; split; [exact D|]]. exists pc. split; [exact E|].
+    apply Hat; [|exact F]. intros G. subst pc. congruence.
+Qed.
+
+(* the status write: the Start returns nil, the cleanup goroutine of the new run takes over *)
+Definition end_ok (s : st) (t : tid) : st :=
+  match t with
+  | TU => match s_user s with Some (id, k, _) => with_user s (Some (id, k, URet RetNil)) | None => s end
+  | TC i => finish_clean s i (s_runs s i) ResNil
+  end.
+
+Lemma thread_finish_Inv2 s t r :
+  Inv2 s -> thread_at s t (SStatus r) ->
+  let s1 := upd_run (with_cur (with_status s Running) (Some r)) r (rw_started (s_runs s r)) in
+  Inv2 (end_ok s1 t).
+Proof.
+  intros HI Ht s1.
+  assert (Ho : owning t (SStatus r)) by (right; discriminate).
+  destruct (thread_ctx s t _ HI Ht Ho) as (C1 & C2 & Hok & C4).
+  pose proof (other_threads s t _ HI Ht Ho) as C5.
+  destruct Hok as (Hpre & Hmp & Hlt & Hal & Hcr & Hsr).
+  pose proof HI as [H1 H2 H3 H4 H5 H6 H7 H8 H9 H10].
+  assert (Hri : forall i, t = TC i -> r <> i).
+  { intros i -> E. subst i. simpl in Ht. congruence. }
+  set (s' := end_ok s1 t).
+  assert (P_next : s_next s' = s_next s) by (unfold s', end_ok, s1; destruct t; [simpl; destruct (s_user s) as [[[? ?] ?]|]|]; simpl; auto).
+  assert (P_status : s_status s' = Running) by (unfold s', end_ok, s1; destruct t; [simpl; destruct (s_user s) as [[[? ?] ?]|]|]; simpl; auto).
+  assert (P_cur : s_cur s' = Some r) by (unfold s', end_ok, s1; destruct t; [simpl; destruct (s_user s) as [[[? ?] ?]|]|]; simpl; auto).
+  assert (P_map : s_map s' = Some r) by (unfold s', end_ok, s1; destruct t; [simpl; destruct (s_user s) as [[[? ?] ?]|]|]; simpl; auto).
+  assert (P_proc : s_proc s' = s_proc s) by (unfold s', end_ok, s1; destruct t; [simpl; destruct (s_user s) as [[[? ?] ?]|]|]; simpl; auto).
+  assert (P_run_r : s_runs s' r = rw_started (s_runs s r)).
+  { unfold s', end_ok, s1. destruct t as [|i]; [simpl; destruct (s_user s) as [[[? ?] ?]|]; simpl; unfold fupd; rewrite Nat.eqb_refl; reflexivity|].
+    simpl. unfold fupd. pose proof (Hri i eq_refl) as Hn. apply Nat.eqb_neq in Hn. rewrite Hn, Nat.eqb_refl. reflexivity. }
+  assert (P_run_o : forall j, j <> r -> TC j <> t -> s_runs s' j = s_runs s j).
+  { intros j Hj Ht'. unfold s', end_ok, s1. apply Nat.eqb_neq in Hj.
+    destruct t as [|i]; [simpl; destruct (s_user s) as [[[? ?] ?]|]; simpl; unfold fupd; rewrite Hj; reflexivity|].
+    simpl. unfold fupd. destruct (Nat.eqb j i) eqn:E; [apply Nat.eqb_eq in E; subst; congruence|]. rewrite Hj. reflexivity. }
+  assert (P_run_i : forall i, t = TC i -> r_phase (s_runs s' i) = PDead /\ src_open (s_runs s' i) = src_open (s_runs s i)).
+  { intros i ->. unfold s'. simpl. unfold fupd. rewrite Nat.eqb_refl. pose proof (Hri i eq_refl) as Hn.
+    assert (E : (i =? r) = false) by (apply Nat.eqb_neq; congruence). rewrite E. split; reflexivity. }
+  assert (P_cl : forall j, TC j <> t -> s_cleans s' j = s_cleans s j).
+  { intros j Hj. unfold s', end_ok, s1. destruct t as [|i]; [simpl; destruct (s_user s) as [[[? ?] ?]|]; reflexivity|].
+    simpl. unfold fupd. destruct (Nat.eqb j i) eqn:E; [apply Nat.eqb_eq in E; subst; congruence|reflexivity]. }
+  assert (P_cli : forall i, t = TC i -> s_cleans s' i = None).
+  { intros i ->. unfold s'. simpl. unfold fupd. rewrite Nat.eqb_refl. reflexivity. }
+  assert (P_uh : user_holds s' = false).
+  { unfold user_holds, user_start. destruct t as [|i].
+    - simpl in Ht. unfold user_start in Ht. unfold s', end_ok, s1. simpl.
+      destruct (s_user s) as [[[? ?] ?]|]; [reflexivity|discriminate].
+    - specialize (C2 ltac:(discriminate)). unfold user_holds, user_start in C2. unfold s'. simpl. exact C2. }
+  assert (P_ust : forall pc, user_start s' = Some pc -> pc = SCheck).
+  { intros pc Hpc. unfold user_holds in P_uh. rewrite Hpc in P_uh. destruct pc; try discriminate. reflexivity. }
+  assert (Hrt : TC r <> t) by (intros E; symmetry in E; eapply Hri; eauto).
+  assert (Hhr : holder s' r = true).
+  { unfold holder. rewrite (P_cl r Hrt), Hcr, P_run_r. reflexivity. }
+  assert (Hhold : forall j, j <> r -> holder s' j = false).
+  { intros j Hj. destruct (tid_eq_dec (TC j) t) as [E|E].
+    - unfold holder. rewrite (P_cli j (eq_sym E)). reflexivity.
+    - unfold holder. rewrite (P_cl j E), (P_run_o j Hj E). apply C1. exact E. }
+  assert (Hnoat : forall pc, at_start s pc -> pc = SStatus r \/ pc = SCheck) by exact C5.
+  constructor.
+  - intros a b Ha Hb.
+    destruct (Nat.eq_dec a r) as [->|Na]; [|rewrite (Hhold a Na) in Ha; discriminate].
+    destruct (Nat.eq_dec b r) as [->|Nb]; [|rewrite (Hhold b Nb) in Hb; discriminate]. reflexivity.
+  - rewrite P_uh. discriminate.
+  - intros pc Hpc. rewrite (P_ust pc Hpc). exact I.
+  - intros j pc Hj. destruct (tid_eq_dec (TC j) t) as [Ej|Ej]; [rewrite (P_cli j (eq_sym Ej)) in Hj; discriminate|].
+    rewrite (P_cl j Ej) in Hj. unfold clean_ok2. rewrite P_next, P_status, P_map, P_cur.
+    destruct (Nat.eq_dec j r) as [->|Nj].
+    + rewrite Hcr in Hj. inversion Hj. subst pc. rewrite P_run_r. simpl. split; [exact Hlt|].
+      split; [exact Hal|]. auto.
+    + pose proof (H4 j pc Hj) as [Hl Hc]. rewrite (P_run_o j Nj Ej). split; [exact Hl|].
+      pose proof (C1 j Ej) as Hh. unfold holder in Hh. rewrite Hj in Hh.
+      destruct pc as [| | |q0| |e|e|e]; try discriminate; try exact Hc.
+      * exfalso. destruct Hc as [_ Hc]. rewrite Hh in Hc.
+        destruct Hc as [Hc|Hc]; destruct (Hnoat _ Hc) as [E|E]; inversion E; congruence.
+      * destruct Hc as [Hc1 Hc2]. split; [exact Hc1|]. congruence.
+  - intros _ Hall. rewrite (Hall r) in Hhr. discriminate.
+  - intros m Hm. rewrite P_map in Hm. inversion Hm. subst m. unfold map_owned2. rewrite (P_cl r Hrt), Hcr.
+    exists CWait. auto.
+  - intros j Hj. rewrite P_next in Hj. unfold run_ok2.
+    destruct (tid_eq_dec (TC j) t) as [Ej|Ej].
+    + destruct (P_run_i j (eq_sym Ej)) as [A _]. rewrite A. apply P_cli. auto.
+    + rewrite (P_cl j Ej). destruct (Nat.eq_dec j r) as [->|Nj].
+      * rewrite P_run_r. simpl. rewrite Hcr. destruct Hal as [A|A]; rewrite A; discriminate.
+      * rewrite (P_run_o j Nj Ej). apply H7. exact Hj.
+  - intros j Hj. rewrite P_next in Hj. rewrite P_cl; [apply H8; exact Hj|].
+    intros E. subst t. destruct (C4 j eq_refl) as (A & _). lia.
+  - intros j Hj. rewrite P_next.
+    assert (Hoj : src_open (s_runs s j) = true /\ r_phase (s_runs s' j) = r_phase (s_runs s j)).
+    { destruct (tid_eq_dec (TC j) t) as [Ej|Ej].
+      - destruct (P_run_i j (eq_sym Ej)) as [A B]. rewrite B in Hj. exfalso.
+        destruct (C4 j (eq_sym Ej)) as (_ & C & _). destruct (H9 j Hj) as [_ [D|[D _]]]; congruence.
+      - destruct (Nat.eq_dec j r) as [->|Nj].
+        + rewrite P_run_r in Hj |- *. simpl in *. auto.
+        + rewrite (P_run_o j Nj Ej) in Hj |- *. auto. }
+    destruct Hoj as [Ho1 Ho2]. rewrite Ho2. destruct (H9 j Ho1) as [A B]. split; [exact A|].
+    destruct B as [B|[B C]]; [left; exact B|exfalso].
+    apply live_witness_pc in C. destruct C as [pc [D1 [D2 D3]]].
+    destruct (Hnoat pc D3) as [E|E]; subst pc; discriminate.
+  - intros p Hp. rewrite P_proc in Hp. rewrite P_next. destruct (H10 p Hp) as [A B]. split; [exact A|].
+    destruct B as [B|[B [pc [C D]]]].
+    + left. destruct (tid_eq_dec (TC p) t) as [Ep|Ep].
+      * exfalso. destruct (C4 p (eq_sym Ep)) as (_ & E & _). congruence.
+      * destruct (Nat.eq_dec p r) as [->|Np]; [rewrite P_run_r; exact B|rewrite (P_run_o p Np Ep); exact B].
+    + exfalso. destruct (Hnoat pc D) as [E|E]; subst pc; simpl in C; inversion C. subst p.
+      destruct Hal as [F|F]; congruence.
+Qed.
+
+(* ------------------------------------------------------------------ *)
+(* one step of Start, executed by thread t                             *)
+Lemma rel_proc_same s r :
+  s_user (rel_proc s r) = s_user s /\ s_next (rel_proc s r) = s_next s /\ s_status (rel_proc s r) = s_status s
+  /\ s_cur (rel_proc s r) = s_cur s /\ s_map (rel_proc s r) = s_map s /\ s_cleans (rel_proc s r) = s_cleans s
+  /\ s_runs (rel_proc s r) = s_runs s /\ s_guard (rel_proc s r) = s_guard s.
+Proof. unfold rel_proc. destruct (onat_eqb (s_proc s) (Some r)); repeat split. Qed.
+
+Lemma rel_proc_proc s r p : s_proc (rel_proc s r) = Some p -> s_proc s = Some p /\ p <> r.
+Proof.
+  unfold rel_proc. destruct (onat_eqb (s_proc s) (Some r)) eqn:E; simpl; [discriminate|].
+  intros H. split; [exact H|]. intros ->. rewrite H in E. simpl in E. rewrite Nat.eqb_refl in E. discriminate.
+Qed.
+
+Lemma set_thread_user s id k x pc :
+  s_user s = Some (id, k, x) -> set_thread s TU pc = with_user s (Some (id, k, UStart pc)).
+Proof. intros H. unfold set_thread. rewrite H. reflexivity. Qed.
+
+Lemma end_fail_user s id k x r : s_user s = Some (id, k, x) -> end_fail s TU r = with_user s (Some (id, k, URet r)).
+Proof. intros H. unfold end_fail. rewrite H. reflexivity. Qed.
+
+Lemma end_ok_user s id k x : s_user s = Some (id, k, x) -> end_ok s TU = with_user s (Some (id, k, URet RetNil)).
+Proof. intros H. unfold end_ok. rewrite H. reflexivity. Qed.
+
+Definition start_result (s1 : st) (t : tid) (res : sres) : Prop :=
+  match res with
+  | SNext s1 q' _ => Inv2 (set_thread s1 t q')
+  | SFin s1 RetNil _ => Inv2 (end_ok s1 t)
+  | SFin s1 x _ => Inv2 (end_fail s1 t x)
+  | SStuck => True
+  end.
+
+(* projections of set_thread that the side conditions need *)
+Lemma set_thread_proj s t pc :
+  s_next (set_thread s t pc) = s_next s /\ s_status (set_thread s t pc) = s_status s
+  /\ s_map (set_thread s t pc) = s_map s /\ s_runs (set_thread s t pc) = s_runs s.
+Proof. unfold set_thread. destruct t; [destruct (s_user s) as [[[? ?] ?]|]|]; repeat split. Qed.
+
+Lemma set_thread_cleans s t pc j : TC j <> t -> s_cleans (set_thread s t pc) j = s_cleans s j.
+Proof.
+  intros H. unfold set_thread. destruct t as [|i]; [destruct (s_user s) as [[[? ?] ?]|]; reflexivity|].
+  simpl. unfold fupd. destruct (Nat.eqb j i) eqn:E; [apply Nat.eqb_eq in E; subst; congruence|reflexivity].
+Qed.
+
+Lemma start_step_thread c s t q ch :
+  v2_repaired c -> Inv2 s -> thread_at s t q -> owning t q ->
+  start_result s t (start_step c s q ch).
+Proof.
+  intros [Hv Hcad Hpo Hdo] HI Ht Ho.
+  destruct (thread_ctx s t q HI Ht Ho) as (C1 & C2 & Hok & C4).
+  pose proof (spc_pre s q _ Hok Ho) as Hpre.
+  assert (Hrt : forall r, pc_run q = Some r -> TC r <> t).
+  { intros r Hr E. subst t. simpl in Ht.
+    destruct q; simpl in Hr; inversion Hr; subst; simpl in Hok;
+      repeat match goal with H : _ /\ _ |- _ => destruct H end; try contradiction; congruence. }
+  (* the new position's condition, for a Start position that talks about run r *)
+  assert (Hspc : forall s1 q', pc_run q' = Some (match pc_run q with Some r => r | None => 0 end) ->
+            pc_run q <> None ->
+            spc_ok2 (set_thread s1 t q') q' (nested_t t) <->
+            match q' with
+            | SClear r | SOpenA r | SOpenSrc r | SOpenDlq r | SRollback r | SSpawn r =>
+                pre_status s1 (nested_t t) /\ r < s_next s1 /\ r_phase (s_runs s1 r) = PNew /\ s_cleans s1 r = None
+                /\ r_started (s_runs s1 r) = false
+            | SPublish r => pre_status s1 (nested_t t) /\ r < s_next s1 /\ alive (s_runs s1 r) /\ s_cleans s1 r = Some CWait
+                            /\ r_started (s_runs s1 r) = false
+            | SStatus r => pre_status s1 (nested_t t) /\ s_map s1 = Some r /\ r < s_next s1 /\ alive (s_runs s1 r)
+                           /\ s_cleans s1 r = Some CWait /\ r_started (s_runs s1 r) = false
+            | SRegister _ => False
+            | _ => True
+            end).
+  { intros s1 q' Hr Hn. destruct (pc_run q) as [r|] eqn:Eq; [|congruence].
+    destruct (set_thread_proj s1 t q') as (B1 & B2 & B3 & B4).
+    pose proof (set_thread_cleans s1 t q' r (Hrt r eq_refl)) as B5.
+    destruct q'; simpl in Hr; inversion Hr; subst; unfold spc_ok2, pre_status; rewrite ?B1, ?B2, ?B3, ?B4, ?B5; tauto. }
+  unfold start_result.
+  destruct q as [| |r|r|r|r|r|r|r|r|r]; simpl start_step; rewrite ?Hv.
+  - (* SCheck: only a nested Start owns here *)
+    destruct Ho as [Ho|Ho]; [|congruence]. destruct t as [|i]; [discriminate|]. simpl in Hok.
+    rewrite Hok. simpl.
+    apply (thread_move_Inv2 s s (TC i) SCheck SBuild); auto; try discriminate; try (left; reflexivity).
+    all: try (intros r Hr; discriminate).
+    all: try (simpl; unfold pre_status; simpl; exact Hok).
+  - (* SBuild *)
+    destruct (s_guard s) eqn:Eg.
+    + apply (thread_abort_Inv2 s s t SBuild RetErr); auto; try discriminate.
+      all: intros p Hp; split; [exact Hp|discriminate].
+    + destruct (c_proc c && negb (onat_eqb (s_proc s) None)) eqn:Ep.
+      * apply (thread_abort_Inv2 s s t SBuild RetErr); auto; try discriminate.
+        all: intros p Hp; split; [exact Hp|discriminate].
+      * apply (thread_build_Inv2 s t (c_proc c)); auto.
+        intros Hp. rewrite Hp in Ep. simpl in Ep. apply Bool.negb_false_iff in Ep. apply onat_eqb_eq in Ep. exact Ep.
+  - (* SClear r -> SOpenA r *)
+    simpl in Hok. destruct Hok as (A1 & A2 & A3 & A4 & A5).
+    apply (thread_move_Inv2 s (with_terr s None) t (SClear r) (SOpenA r)); auto; try discriminate; try (left; reflexivity).
+    all: try (apply Hspc; [reflexivity|discriminate|]; unfold pre_status in *; simpl; repeat split; auto; fail).
+    all: intros r0 Hr; inversion Hr; subst r0; simpl; repeat split; auto; try discriminate.
+  - (* SOpenA r *)
+    simpl in Hok. destruct Hok as (A1 & A2 & A3 & A4 & A5).
+    destruct (rel_proc_same s r) as (R1 & R2 & R3 & R4 & R5 & R6 & R7 & R8).
+    assert (Habort : Inv2 (end_fail (rel_proc s r) t RetErr)).
+    { apply (thread_abort_Inv2 s (rel_proc s r) t (SOpenA r) RetErr); auto.
+      - intros j. rewrite R7. auto.
+      - intros r0 _ Hl. discriminate.
+      - intros p Hp. destruct (rel_proc_proc s r p Hp) as [B1 B2]. split; [exact B1|]. simpl. congruence. }
+    destruct ch as [|[|[|ch]]].
+    + apply (thread_move_Inv2 s s t (SOpenA r) (SOpenSrc r)); auto; try discriminate; try (left; reflexivity).
+      all: try (apply Hspc; [reflexivity|discriminate|]; unfold pre_status in *; simpl; repeat split; auto; fail).
+      all: intros r0 Hr; inversion Hr; subst r0; simpl; repeat split; auto; try discriminate.
+    + destruct (c_proc c); [|exact I]. rewrite Hpo. exact Habort.
+    + exact Habort.
+    + match goal with |- context [existsb ?f ?l] => destruct (existsb f l) end; [exact Habort|exact I].
+  - (* SOpenSrc r *)
+    simpl in Hok. destruct Hok as (A1 & A2 & A3 & A4 & A5).
+    destruct (rel_proc_same s r) as (R1 & R2 & R3 & R4 & R5 & R6 & R7 & R8).
+    assert (Habort : Inv2 (end_fail (rel_proc s r) t RetErr)).
+    { apply (thread_abort_Inv2 s (rel_proc s r) t (SOpenSrc r) RetErr); auto.
+      - intros j. rewrite R7. auto.
+      - intros r0 _ Hl. discriminate.
+      - intros p Hp. destruct (rel_proc_proc s r p Hp) as [B1 B2]. split; [exact B1|]. simpl. congruence. }
+    destruct (get_run s r) as [x|] eqn:Er; [|exact I]. apply get_run_some in Er. subst x.
+    destruct ch as [|ch]; [|exact Habort].
+    destruct (s_guard s) eqn:Eg; [exact Habort|].
+    set (s1 := upd_run (with_guard s (Some r)) r (rw_src (s_runs s r) SOpen)).
+    assert (Es1 : s_runs s1 r = rw_src (s_runs s r) SOpen) by (unfold s1; simpl; unfold fupd; rewrite Nat.eqb_refl; reflexivity).
+    apply (thread_move_Inv2 s s1 t (SOpenSrc r) (SOpenDlq r)); auto; try discriminate; try (left; reflexivity).
+    all: try (apply Hspc; [reflexivity|discriminate|]; rewrite Es1; unfold pre_status in *; simpl; repeat split; auto; fail).
+    + intros j Hj. unfold s1. simpl. unfold fupd. destruct (Nat.eqb j r) eqn:E; [apply Nat.eqb_eq in E; subst; simpl in Hj; congruence|auto].
+    + intros r0 Hr. inversion Hr. subst r0. rewrite Es1. simpl. repeat split; auto; try discriminate.
+  - (* SOpenDlq r *)
+    simpl in Hok. destruct Hok as (A1 & A2 & A3 & A4 & A5).
+    destruct ch as [|ch].
+    + apply (thread_move_Inv2 s s t (SOpenDlq r) (SSpawn r)); auto; try discriminate; try (left; reflexivity).
+      all: try (apply Hspc; [reflexivity|discriminate|]; unfold pre_status in *; simpl; repeat split; auto; fail).
+      all: intros r0 Hr; inversion Hr; subst r0; simpl; repeat split; auto; try discriminate.
+    + rewrite Hdo.
+      apply (thread_move_Inv2 s s t (SOpenDlq r) (SRollback r)); auto; try discriminate; try (left; reflexivity).
+      all: try (apply Hspc; [reflexivity|discriminate|]; unfold pre_status in *; simpl; repeat split; auto; fail).
+      all: intros r0 Hr; inversion Hr; subst r0; simpl; repeat split; auto; try discriminate.
+  - (* SRollback r *)
+    simpl in Hok. destruct Hok as (A1 & A2 & A3 & A4 & A5).
+    destruct (get_run s r) as [x|] eqn:Er; [|exact I]. apply get_run_some in Er. subst x.
+    destruct (src_open (s_runs s r) && onat_eqb (s_guard s) (Some r)) eqn:Ec; [|exact I].
+    set (s0 := upd_run (with_guard s None) r (rw_src (s_runs s r) SClosed)).
+    destruct (rel_proc_same s0 r) as (R1 & R2 & R3 & R4 & R5 & R6 & R7 & R8).
+    apply (thread_abort_Inv2 s (rel_proc s0 r) t (SRollback r) RetErr); auto.
+    + intros j. rewrite R7. unfold s0. simpl. unfold fupd. destruct (Nat.eqb j r) eqn:E; [|auto].
+      apply Nat.eqb_eq in E. subst j. simpl. repeat split; auto; try discriminate.
+    + intros r0 Hr _. inversion Hr. subst r0. rewrite R7. unfold s0. simpl. unfold fupd. rewrite Nat.eqb_refl. reflexivity.
+    + intros p Hp. destruct (rel_proc_proc s0 r p Hp) as [B1 B2]. split; [exact B1|]. simpl. congruence.
+  - (* SSpawn r *)
+    simpl in Hok. destruct Hok as (A1 & A2 & A3 & A4 & A5).
+    destruct (get_run s r) as [x|] eqn:Er; [|exact I]. apply get_run_some in Er. subst x.
+    set (s1 := set_clean (upd_run s r (rw_phase (s_runs s r) PLive)) r (Some CWait)).
+    assert (Es1 : s_runs s1 r = rw_phase (s_runs s r) PLive) by (unfold s1; simpl; unfold fupd; rewrite Nat.eqb_refl; reflexivity).
+    assert (Ec1 : s_cleans s1 r = Some CWait) by (unfold s1; simpl; unfold fupd; rewrite Nat.eqb_refl; reflexivity).
+    apply (thread_move_Inv2 s s1 t (SSpawn r) (SPublish r)); auto; try discriminate; try (left; reflexivity).
+    all: try (apply Hspc; [reflexivity|discriminate|]; rewrite Es1, Ec1; unfold alive, pre_status in *; simpl; repeat split; auto; fail).
+    + intros j Hj. unfold s1. simpl. unfold fupd. destruct (Nat.eqb j r) eqn:E; [apply Nat.eqb_eq in E; subst; simpl in Hj; congruence|auto].
+    + intros r0 Hr. inversion Hr. subst r0. rewrite Es1, Ec1. simpl. repeat split; auto; try (intros _; right; reflexivity).
+  - (* SPublish r *)
+    simpl in Hok. destruct Hok as (A1 & A2 & A3 & A4 & A5).
+    apply (thread_move_Inv2 s (with_map s (Some r)) t (SPublish r) (SStatus r)); auto; try discriminate.
+    all: try (apply Hspc; [reflexivity|discriminate|]; unfold pre_status in *; simpl; repeat split; auto; fail).
+    all: try (right; exists r; auto; fail).
+    all: intros r0 Hr; inversion Hr; subst r0; simpl; repeat split; auto; try discriminate.
+  - (* SStatus r *)
+    simpl in Hok. destruct Hok as (A1 & A2 & A3 & A4 & A5 & A6).
+    assert (Eg : get_run (with_cur (with_status s Running) (Some r)) r = Some (s_runs s r)).
+    { unfold get_run. simpl. apply Nat.ltb_lt in A3. rewrite A3. reflexivity. }
+    rewrite Eg. apply (thread_finish_Inv2 s t r HI Ht).
+  - (* SRegister: not a v2 position *)
+    simpl in Hok. contradiction.
+Qed.
+
+Lemma start_step_user c s q ch :
+  match start_step c s q ch with
+  | SNext s1 _ _ | SFin s1 _ _ => s_user s1 = s_user s
+  | SStuck => True
+  end.
+Proof.
+  destruct (start_step c s q ch) eqn:H; [| |exact I];
+    destruct q; simpl in H; split_hyp H; inv_eqs; unfold rel_proc; simpl;
+    repeat match goal with |- context [if ?x then _ else _] => destruct x; simpl end; reflexivity.
+Qed.
+
+Lemma user_step_Inv2 c s ch s' l :
+  v2_repaired c -> Inv2 s -> polite s (AUser ch) -> user_step c s ch = Some (s', l) -> Inv2 s'.
+Proof.
+  intros Hc HI Hpol H. pose proof (v2_engine c Hc) as Hv.
+  destruct (s_user s) as [[[id k] pc]|] eqn:Hu; [|unfold user_step in H; rewrite Hu in H; discriminate].
+  destruct pc as [q| |m sw|r m sw|r m sw| |r| |x].
+  2-9: eapply user_step_nonstart_Inv2; eauto; intros q0; discriminate.
+  unfold user_step in H. rewrite Hu in H.
+  assert (Ht : thread_at s TU q) by (simpl; unfold user_start; rewrite Hu; reflexivity).
+  destruct (spc_eq_dec q SCheck) as [->|Hq].
+  - simpl in H. destruct (status_eqb (s_status s) Running) eqn:Er; inversion H; subst; clear H.
+    + eapply Inv2_idle_user; [exact HI| | |]; try (repeat split; fail);
+        unfold idle_user, user_start; simpl; rewrite ?Hu; auto.
+    + eapply user_check_Inv2; eauto; try (apply Hpol; unfold user_start; rewrite Hu; reflexivity).
+  - pose proof (start_step_thread c s TU q ch Hc HI Ht (or_intror Hq)) as HS.
+    pose proof (start_step_user c s q ch) as HU.
+    destruct (start_step c s q ch) as [s1 pc1 l1|s1 x1 l1|]; [| |discriminate]; inversion H; subst; clear H.
+    + simpl in HS. rewrite HU, Hu in HS. exact HS.
+    + rewrite Hu in HU. destruct x1; simpl in HS; rewrite HU in HS; exact HS.
+Qed.
+
+(* ------------------------------------------------------------------ *)
+(* the cleanup goroutine outside a nested Start                        *)
+Definition holder_pc (pc : cpc) : bool :=
+  match pc with CBackoff | CWake | CStart _ | CFailed => true | _ => false end.
+
+Lemma at_start_clean_move s s' i pc :
+  s_cleans s i = Some pc -> (forall q, pc <> CStart q) ->
+  user_start s' = user_start s ->
+  (forall j, j <> i -> s_cleans s' j = s_cleans s j) ->
+  forall p, at_start s p -> at_start s' p.
+Proof.
+  intros Hc Hn Eu Ecl p [H|[j H]]; [left; rewrite Eu; exact H|].
+  right. exists j. destruct (Nat.eq_dec j i) as [->|Hne]; [rewrite Hc in H; inversion H; subst; exfalso; eapply Hn; eauto|].
+  rewrite (Ecl j Hne). exact H.
+Qed.
+
+(* the holder cleanup i (not inside a nested Start) moves to pc', possibly writing a status *)
+Lemma clean_move_Inv2 s i pc pc' x :
+  Inv2 s -> s_cleans s i = Some pc -> holder s i = true -> (forall q, pc <> CStart q) ->
+  let s' := set_clean (with_status s x) i (Some pc') in
+  clean_ok2 s' i pc' ->
+  (holder_pc pc' = false -> stopped_b x = true) ->
+  (match pc' with CTail3 _ | CWait => False | CStart q => pc_run q = None | _ => True end) ->
+  Inv2 s'.
+Proof.
+  intros HI Hc Hh Hns s' Hok Hst Hshape.
+  pose proof HI as [H1 H2 H3 H4 H5 H6 H7 H8 H9 H10].
+  assert (Hoth : forall j, j <> i -> holder s j = false).
+  { intros j Hj. destruct (holder s j) eqn:E; [|reflexivity]. exfalso. apply Hj. apply H1; auto. }
+  assert (Hnu : user_holds s = false).
+  { destruct (user_holds s) eqn:E; [|reflexivity]. rewrite (H2 eq_refl i) in Hh. discriminate. }
+  assert (Ecl : forall j, s_cleans s' j = if Nat.eqb j i then Some pc' else s_cleans s j) by (intros j; reflexivity).
+  assert (Ecl' : forall j, j <> i -> s_cleans s' j = s_cleans s j).
+  { intros j Hj. rewrite Ecl. apply Nat.eqb_neq in Hj. rewrite Hj. reflexivity. }
+  assert (Hat : forall p, at_start s p -> at_start s' p).
+  { eapply at_start_clean_move; eauto. }
+  assert (Hhi : holder s' i = holder_pc pc').
+  { unfold holder. rewrite Ecl, Nat.eqb_refl. destruct pc'; simpl in *; try reflexivity; contradiction. }
+  assert (Hho : forall j, j <> i -> holder s' j = false).
+  { intros j Hj. unfold holder. rewrite (Ecl' j Hj). apply Hoth. exact Hj. }
+  constructor.
+  - intros a b Ha Hb.
+    destruct (Nat.eq_dec a i) as [->|Na]; [|rewrite (Hho a Na) in Ha; discriminate].
+    destruct (Nat.eq_dec b i) as [->|Nb]; [|rewrite (Hho b Nb) in Hb; discriminate]. reflexivity.
+  - intros Hf. change (user_holds s') with (user_holds s) in Hf. congruence.
+  - intros q Hq. change (user_start s') with (user_start s) in Hq.
+    destruct (user_idle_of_not_holding s Hnu) as [E|E]; rewrite E in Hq; inversion Hq. exact I.
+  - intros j q Hj. rewrite Ecl in Hj. destruct (Nat.eqb j i) eqn:E.
+    + apply Nat.eqb_eq in E. subst j. inversion Hj. subst q. exact Hok.
+    + apply Nat.eqb_neq in E. pose proof (Hoth j E) as Hn'. unfold holder in Hn'. rewrite Hj in Hn'.
+      pose proof (H4 j q Hj) as [Hlt Hcq]. unfold clean_ok2. split; [exact Hlt|].
+      change (s_runs s') with (s_runs s). change (s_map s') with (s_map s). change (s_cur s') with (s_cur s).
+      destruct q as [| | |q0| |e|e|e]; try discriminate; try exact Hcq.
+      destruct Hcq as [A B]. split; [exact A|]. rewrite Hn' in B |- *.
+      destruct B as [B|B]; [left|right]; apply Hat; exact B.
+  - intros _ Hall. simpl. apply Hst. rewrite <- Hhi. apply Hall.
+  - intros m Hm. change (s_map s') with (s_map s) in Hm. destruct (H6 m Hm) as [q [A B]].
+    unfold map_owned2. rewrite Ecl. destruct (Nat.eqb m i) eqn:E.
+    + exists pc'. split; [reflexivity|]. destruct pc'; auto.
+    + exists q. auto.
+  - intros j Hj. change (s_next s') with (s_next s) in Hj. specialize (H7 j Hj).
+    unfold run_ok2 in *. change (s_runs s') with (s_runs s). rewrite Ecl.
+    destruct (Nat.eqb j i) eqn:E; [|exact H7]. apply Nat.eqb_eq in E. subst j. rewrite Hc in H7.
+    destruct (r_phase (s_runs s i)); try discriminate; try congruence.
+  - intros j Hj. change (s_next s') with (s_next s) in Hj. rewrite Ecl.
+    destruct (Nat.eqb j i) eqn:E; [|apply H8; exact Hj].
+    apply Nat.eqb_eq in E. subst j. pose proof (H4 i pc Hc) as [Hlt _]. lia.
+  - intros j Hj. change (s_runs s') with (s_runs s) in *. change (s_next s') with (s_next s).
+    destruct (H9 j Hj) as [A B]. split; [exact A|]. destruct B as [B|[B C]]; [left; exact B|right; split; [exact B|]].
+    unfold live_witness in *. destruct C as [C|[C|C]]; [left|right; left|right; right]; apply Hat; exact C.
+  - intros p Hp. change (s_proc s') with (s_proc s) in Hp. change (s_runs s') with (s_runs s). change (s_next s') with (s_next s).
+    destruct (H10 p Hp) as [A B]. split; [exact A|].
+    destruct B as [B|[B [q [C D]]]]; [left; exact B|right; split; [exact B|]]. exists q. split; [exact C|apply Hat; exact D].
+Qed.
+
+Definition tail_pc (pc : cpc) : bool := match pc with CTail1 _ | CTail2 _ | CTail3 _ => true | _ => false end.
+
+(* a cleanup goroutine in its tail moves on; it may write terminalErrors or delete ITS OWN map entry *)
+Lemma tail_move_Inv2 s i pc pc' (mp : option nat) :
+  Inv2 s -> s_cleans s i = Some pc -> tail_pc pc = true -> tail_pc pc' = true ->
+  (mp = s_map s \/ (s_map s = Some i /\ mp = None)) ->
+  (match pc' with CTail3 _ => mp <> Some i | _ => True end) ->
+  forall t, Inv2 (set_clean (with_terr (with_map s mp) t) i (Some pc')).
+Proof.
+  intros HI Hc Hn Hn' Hmp H3' t.
+  pose proof HI as [H1 H2 H3 H4 H5 H6 H7 H8 H9 H10].
+  set (s' := set_clean (with_terr (with_map s mp) t) i (Some pc')).
+  assert (Ecl : forall j, s_cleans s' j = if Nat.eqb j i then Some pc' else s_cleans s j) by (intros j; reflexivity).
+  assert (Ehold : forall j, holder s' j = holder s j).
+  { intros j. unfold holder. rewrite Ecl. change (s_runs s') with (s_runs s). destruct (Nat.eqb j i) eqn:E; [|reflexivity].
+    apply Nat.eqb_eq in E. subst j. rewrite Hc. destruct pc, pc'; simpl in *; try discriminate; reflexivity. }
+  assert (Hat : forall q, at_start s q -> at_start s' q).
+  { apply (at_start_clean_move s s' i pc); auto.
+    - intros q E. subst pc. discriminate.
+    - intros j Hj. rewrite Ecl. apply Nat.eqb_neq in Hj. rewrite Hj. reflexivity. }
+  assert (Hpi : r_phase (s_runs s i) = PEnded /\ i < s_next s).
+  { pose proof (H4 i pc Hc) as [Hlt Hx]. split; [|exact Hlt].
+    destruct pc; simpl in Hn; try discriminate; try exact Hx. destruct Hx; assumption. }
+  (* if somebody else relies on the map entry, this tail does not delete it *)
+  assert (Hkeep : forall m, s_map s = Some m -> m <> i -> mp = s_map s).
+  { intros m Hm Hne. destruct Hmp as [E|[E1 E2]]; [exact E|congruence]. }
+  assert (Hspc : forall q n, spc_ok2 s q n -> spc_ok2 s' q n).
+  { intros q n Hq. destruct q; simpl in *; auto;
+      repeat match goal with H : _ /\ _ |- _ => destruct H end; repeat split; auto;
+      try (unfold fupd; match goal with |- (if Nat.eqb ?r i then _ else _) = _ =>
+             destruct (Nat.eqb r i) eqn:E; [apply Nat.eqb_eq in E; subst; rewrite Hc in *;
+               repeat match goal with H : Some _ = _ |- _ => inversion H; clear H; subst end;
+               simpl in Hn; discriminate|assumption] end).
+    (* SStatus r: map = Some r *)
+    match goal with Hm : s_map s = Some ?r |- _ =>
+      rewrite (Hkeep r Hm); [exact Hm|intros E; subst; rewrite Hc in *;
+        repeat match goal with H : Some _ = _ |- _ => inversion H; clear H; subst end; simpl in Hn; discriminate] end. }
+  constructor.
+  - intros a b. rewrite !Ehold. apply H1.
+  - intros Hf j. rewrite Ehold. apply H2. exact Hf.
+  - intros q Hq. change (user_start s') with (user_start s) in Hq. apply Hspc. apply H3. exact Hq.
+  - intros j q Hj. rewrite Ecl in Hj. destruct (Nat.eqb j i) eqn:E.
+    + apply Nat.eqb_eq in E. subst j. inversion Hj. subst q. destruct Hpi as [Hp Hlt].
+      unfold clean_ok2. split; [exact Hlt|]. destruct pc'; simpl in Hn'; try discriminate; auto.
+    + apply Nat.eqb_neq in E. pose proof (H4 j q Hj) as [Hlt Hok]. unfold clean_ok2. split; [exact Hlt|].
+      change (s_runs s') with (s_runs s). change (s_status s') with (s_status s). change (s_cur s') with (s_cur s).
+      change (s_map s') with mp.
+      destruct q as [| | |q0| |e|e|e].
+      * destruct Hok as [A B]. split; [exact A|]. destruct (r_started (s_runs s j)).
+        -- destruct B as (B1 & B2 & B3). rewrite (Hkeep j B2 E). auto.
+        -- destruct B as [B|B]; [left|right]; apply Hat; exact B.
+      * destruct Hok as (A & B & C). rewrite (Hkeep j C E). auto.
+      * destruct Hok as (A & B & C). rewrite (Hkeep j C E). auto.
+      * destruct Hok as (A & B & C). split; [exact A|]. split; [apply Hspc; exact B|].
+        intros Hb. rewrite (Hkeep j (C Hb) E). apply C. exact Hb.
+      * destruct Hok as (A & B & C). rewrite (Hkeep j C E). auto.
+      * exact Hok.
+      * exact Hok.
+      * destruct Hok as [A B]. split; [exact A|]. destruct Hmp as [->|[_ ->]]; [exact B|discriminate].
+  - intros Hu Hall. simpl. apply H5; [exact Hu|]. intros j. rewrite <- Ehold. apply Hall.
+  - intros m Hm. change (s_map s') with mp in Hm. unfold map_owned2. rewrite Ecl.
+    assert (Hm' : s_map s = Some m) by (destruct Hmp as [E|[E1 E2]]; [rewrite <- E; exact Hm|rewrite E2 in Hm; discriminate]).
+    destruct (H6 m Hm') as [q [A B]]. destruct (Nat.eqb m i) eqn:E.
+    + apply Nat.eqb_eq in E. subst m. exists pc'. split; [reflexivity|]. destruct pc'; auto.
+    + exists q. auto.
+  - intros j Hj. change (s_next s') with (s_next s) in Hj. specialize (H7 j Hj).
+    unfold run_ok2 in *. change (s_runs s') with (s_runs s). rewrite Ecl.
+    destruct (Nat.eqb j i) eqn:E; [|exact H7]. apply Nat.eqb_eq in E. subst j. destruct Hpi as [Hp _]. rewrite Hp. discriminate.
+  - intros j Hj. change (s_next s') with (s_next s) in Hj. rewrite Ecl.
+    destruct (Nat.eqb j i) eqn:E; [|apply H8; exact Hj]. apply Nat.eqb_eq in E. subst j. destruct Hpi. lia.
+  - intros j Hj. change (s_runs s') with (s_runs s) in *. change (s_next s') with (s_next s).
+    destruct (H9 j Hj) as [A B]. split; [exact A|]. destruct B as [B|[B C]]; [left; exact B|right; split; [exact B|]].
+    unfold live_witness in *. destruct C as [C|[C|C]]; [left|right; left|right; right]; apply Hat; exact C.
+  - intros p Hp. change (s_proc s') with (s_proc s) in Hp. change (s_runs s') with (s_runs s). change (s_next s') with (s_next s).
+    destruct (H10 p Hp) as [A B]. split; [exact A|].
+    destruct B as [B|[B [q [C D]]]]; [left; exact B|right; split; [exact B|]]. exists q. split; [exact C|apply Hat; exact D].
+Qed.
+
+(* the cleanup goroutine of run i returns from its tail: the tomb of run i is dead *)
+Lemma clean_end_Inv2 s i e x :
+  Inv2 s -> s_cleans s i = Some (CTail3 e) ->
+  Inv2 (set_clean (upd_run s i (rw_dead (s_runs s i) x)) i None).
+Proof.
+  intros HI Hc.
+  pose proof HI as [H1 H2 H3 H4 H5 H6 H7 H8 H9 H10].
+  pose proof (H4 i _ Hc) as (Hlt & Hpe & Hmi).
+  remember (set_clean (upd_run s i (rw_dead (s_runs s i) x)) i None) as s' eqn:Es'.
+  assert (Ecl : forall j, s_cleans s' j = if Nat.eqb j i then None else s_cleans s j) by (intros j; subst s'; reflexivity).
+  assert (Eru : forall j, j <> i -> s_runs s' j = s_runs s j).
+  { intros j Hj. subst s'. unfold set_clean, upd_run, fupd. simpl. apply Nat.eqb_neq in Hj. rewrite Hj. reflexivity. }
+  assert (Eri : r_phase (s_runs s' i) = PDead /\ src_open (s_runs s' i) = src_open (s_runs s i)).
+  { subst s'. unfold set_clean, upd_run, fupd. simpl. rewrite Nat.eqb_refl. split; reflexivity. }
+  assert (Enx : s_next s' = s_next s) by (subst s'; reflexivity).
+  assert (Est : s_status s' = s_status s) by (subst s'; reflexivity).
+  assert (Emp : s_map s' = s_map s) by (subst s'; reflexivity).
+  assert (Ecu : s_cur s' = s_cur s) by (subst s'; reflexivity).
+  assert (Epr : s_proc s' = s_proc s) by (subst s'; reflexivity).
+  assert (Eus : s_user s' = s_user s) by (subst s'; reflexivity).
+  clear Es'.
+  assert (Eust : user_start s' = user_start s) by (unfold user_start; rewrite Eus; reflexivity).
+  assert (Ehold : forall j, holder s' j = holder s j).
+  { intros j. unfold holder. rewrite Ecl. destruct (Nat.eqb j i) eqn:E.
+    - apply Nat.eqb_eq in E. subst j. rewrite Hc. reflexivity.
+    - apply Nat.eqb_neq in E. rewrite (Eru j E). reflexivity. }
+  assert (Hat : forall q, at_start s q -> at_start s' q).
+  { apply (at_start_clean_move s s' i (CTail3 e)); auto.
+    - intros q E. discriminate.
+    - intros j Hj. rewrite Ecl. apply Nat.eqb_neq in Hj. rewrite Hj. reflexivity. }
+  assert (Hne : forall r pcr, s_cleans s r = pcr -> pcr <> Some (CTail3 e) -> r <> i) by (intros r pcr Hr Hn E; subst; congruence).
+  assert (Hspc : forall q n, spc_ok2 s q n -> spc_ok2 s' q n).
+  { intros q n. unfold spc_ok2, pre_status, alive. rewrite Est, Emp, Enx.
+    destruct q; auto; intros H; repeat match goal with H : _ /\ _ |- _ => destruct H end;
+      match goal with
+      | Hn : s_cleans s ?r = None |- _ => pose proof (Hne r _ Hn ltac:(discriminate)) as Hr
+      | Hn : s_cleans s ?r = Some CWait |- _ => pose proof (Hne r _ Hn ltac:(discriminate)) as Hr
+      end;
+      rewrite Ecl; pose proof Hr as Hr'; apply Nat.eqb_neq in Hr'; rewrite Hr', (Eru _ Hr); repeat split; auto. }
+  constructor.
+  - intros a b. rewrite !Ehold. apply H1.
+  - intros Hf j. rewrite Ehold. apply H2. unfold user_holds in *. rewrite Eust in Hf. exact Hf.
+  - intros q Hq. apply Hspc. apply H3. rewrite Eust in Hq. exact Hq.
+  - intros j q Hj. rewrite Ecl in Hj. destruct (Nat.eqb j i) eqn:E; [discriminate|].
+    apply Nat.eqb_neq in E. pose proof (H4 j q Hj) as [Hl Hok]. unfold clean_ok2. rewrite Enx, Est, Emp, Ecu, (Eru j E).
+    split; [exact Hl|]. destruct q as [| | |q0| | | |]; try exact Hok.
+    + destruct Hok as [A B]. split; [exact A|]. destruct (r_started (s_runs s j)); [exact B|].
+      destruct B as [B|B]; [left|right]; apply Hat; exact B.
+    + destruct Hok as (A & B & C). split; [exact A|]. split; [apply Hspc; exact B|exact C].
+  - intros Hu Hall. rewrite Est. apply H5.
+    + unfold user_holds in *. rewrite Eust in Hu. exact Hu.
+    + intros j. rewrite <- Ehold. apply Hall.
+  - intros m Hm. rewrite Emp in Hm. destruct (H6 m Hm) as [q [A B]]. unfold map_owned2. rewrite Ecl.
+    destruct (Nat.eqb m i) eqn:E; [apply Nat.eqb_eq in E; subst m; contradiction|]. exists q. auto.
+  - intros j Hj. rewrite Enx in Hj. specialize (H7 j Hj). unfold run_ok2 in *. rewrite Ecl.
+    destruct (Nat.eqb j i) eqn:E.
+    + apply Nat.eqb_eq in E. subst j. destruct Eri as [Ed _]. rewrite Ed. reflexivity.
+    + apply Nat.eqb_neq in E. rewrite (Eru j E). exact H7.
+  - intros j Hj. rewrite Enx in Hj. rewrite Ecl. destruct (Nat.eqb j i); [reflexivity|apply H8; exact Hj].
+  - intros j Hj. rewrite Enx. destruct (Nat.eq_dec j i) as [->|Hn].
+    + destruct Eri as [_ Eo]. rewrite Eo in Hj. destruct (H9 i Hj) as [_ [A|[A _]]]; congruence.
+    + rewrite (Eru j Hn) in Hj |- *. destruct (H9 j Hj) as [A B]. split; [exact A|].
+      destruct B as [B|[B C]]; [left; exact B|right; split; [exact B|]].
+      unfold live_witness in *. destruct C as [C|[C|C]]; [left|right; left|right; right]; apply Hat; exact C.
+  - intros p Hp. rewrite Epr in Hp. rewrite Enx. destruct (H10 p Hp) as [A B]. split; [exact A|].
+    destruct (Nat.eq_dec p i) as [->|Hn]; [destruct B as [B|[B _]]; congruence|]. rewrite (Eru p Hn).
+    destruct B as [B|[B [q [C D]]]]; [left; exact B|right; split; [exact B|]]. exists q. split; [exact C|apply Hat; exact D].
+Qed.
+
+(* the classification of v2 either enters recovery or writes a stopped status *)
+Lemma v2_decide_stopped r f :
+  enters_recovery v2_arms r f = false ->
+  exists x e, decide v2_arms r f RecRestarted = Final x e /\ stopped_b x = true.
+Proof.
+  destruct r, f as [[] []]; simpl; intros H; try discriminate; eexists; eexists; split; reflexivity.
+Qed.
+
+Lemma clean_step_Inv2 c s i ch s' l :
+  v2_repaired c -> Inv2 s -> clean_step c s i ch = Some (s', l) -> Inv2 s'.
+Proof.
+  intros Hc2 HI H. pose proof (v2_engine c Hc2) as Hv. unfold clean_step in H.
+  destruct (get_run s i) as [x|] eqn:Er; [|discriminate].
+  pose proof (get_run_some _ _ _ Er). subst x.
+  destruct (s_cleans s i) as [pc|] eqn:Hc; [|discriminate].
+  pose proof (j_clean s HI i pc Hc) as Hok.
+  destruct pc as [| | |q| |e|e|e].
+  - (* CWait *)
+    destruct Hok as (Hlt & Hal & Hrest).
+    destruct (r_phase (s_runs s i)) eqn:Ep; try discriminate.
+    destruct (r_started (s_runs s i)) eqn:Es; [|discriminate].
+    destruct Hrest as (Hst & Hmp & Hcu).
+    assert (Hh : holder s i = true) by (unfold holder; rewrite Hc, Es; reflexivity).
+    assert (Hlr : late_read c (s_runs s i) ch = false) by (unfold late_read; rewrite (is_v1_v2 c Hv); reflexivity).
+    rewrite Hlr, Hv in H. simpl arms_of in H.
+    destruct (enters_recovery v2_arms (reason_of c (r_kill (s_runs s i))) (flags_of c s (s_runs s i))) eqn:Ee.
+    + inversion H; subst; clear H.
+      apply (clean_move_Inv2 s i CWait CBackoff Recovering HI Hc Hh); [discriminate| |discriminate|exact I].
+      unfold clean_ok2. simpl. repeat split; auto.
+    + destruct (v2_decide_stopped _ _ Ee) as (x & e & Hd & Hx). rewrite Hd in H. inversion H; subst; clear H.
+      apply (clean_move_Inv2 s i CWait (CTail1 _) x HI Hc Hh); [discriminate| |intros _; exact Hx|exact I].
+      unfold clean_ok2. simpl. split; auto.
+  - (* CBackoff *)
+    destruct Hok as (Hlt & Hpe & Hst & Hmp).
+    assert (Hh : holder s i = true) by (unfold holder; rewrite Hc; reflexivity).
+    destruct ch; inversion H; subst; clear H.
+    + change (Inv2 (set_clean (with_status s (s_status s)) i (Some CWake))).
+      apply (clean_move_Inv2 s i CBackoff CWake _ HI Hc Hh); [discriminate| |discriminate|exact I].
+      unfold clean_ok2. simpl. repeat split; auto.
+    + apply (clean_move_Inv2 s i CBackoff (CTail1 ResRecovery) Degraded HI Hc Hh); [discriminate| |reflexivity|exact I].
+      unfold clean_ok2. simpl. split; auto.
+  - (* CWake *)
+    destruct Hok as (Hlt & Hpe & Hst & Hmp).
+    assert (Hh : holder s i = true) by (unfold holder; rewrite Hc; reflexivity).
+    rewrite Hmp in H. simpl in H. rewrite Nat.eqb_refl in H. rewrite Hv in H.
+    destruct (s_shutdown s); inversion H; subst; clear H.
+    + apply (clean_move_Inv2 s i CWake (CTail1 ResNil) SystemStopped HI Hc Hh); [discriminate| |reflexivity|exact I].
+      unfold clean_ok2. simpl. split; auto.
+    + change (Inv2 (set_clean (with_status s (s_status s)) i (Some (CStart SCheck)))).
+      apply (clean_move_Inv2 s i CWake (CStart SCheck) _ HI Hc Hh); [discriminate| |discriminate|reflexivity].
+      unfold clean_ok2. simpl. repeat split; auto.
+  - (* CStart q : the nested Start *)
+    assert (Ht : thread_at s (TC i) q) by exact Hc.
+    pose proof (start_step_thread c s (TC i) q ch Hc2 HI Ht (or_introl eq_refl)) as HS.
+    destruct (start_step c s q ch) as [s1 pc1 l1|s1 x1 l1|]; [| |discriminate].
+    + inversion H; subst; clear H. exact HS.
+    + destruct x1; simpl in HS.
+      * destruct (get_run s1 i) as [ri|] eqn:Eri; [|discriminate]. apply get_run_some in Eri. subst ri.
+        inversion H; subst; clear H. exact HS.
+      * inversion H; subst; clear H. exact HS.
+      * inversion H; subst; clear H. exact HS.
+      * inversion H; subst; clear H. exact HS.
+      * inversion H; subst; clear H. exact HS.
+  - (* CFailed *)
+    destruct Hok as (Hlt & Hpe & Hst & Hmp).
+    assert (Hh : holder s i = true) by (unfold holder; rewrite Hc; reflexivity).
+    inversion H; subst; clear H.
+    apply (clean_move_Inv2 s i CFailed (CTail1 ResRecovery) Degraded HI Hc Hh); [discriminate| |reflexivity|exact I].
+    unfold clean_ok2. simpl. split; auto.
+  - (* CTail1 *)
+    inversion H; subst; clear H.
+    change (Inv2 (set_clean (with_terr (with_map s (s_map s)) (Some e)) i (Some (CTail2 e)))).
+    apply (tail_move_Inv2 s i (CTail1 e) (CTail2 e) (s_map s) HI Hc); auto.
+  - (* CTail2: compare-and-delete *)
+    rewrite Hv, (v2_cad c Hc2) in H. simpl in H.
+    destruct (onat_eqb (s_map s) (Some i)) eqn:Em; simpl in H; inversion H; subst; clear H.
+    + apply onat_eqb_eq in Em.
+      change (Inv2 (set_clean (with_terr (with_map s None) (s_terr s)) i (Some (CTail3 e)))).
+      apply (tail_move_Inv2 s i (CTail2 e) (CTail3 e) None HI Hc); auto. discriminate.
+    + change (Inv2 (set_clean (with_terr (with_map s (s_map s)) (s_terr s)) i (Some (CTail3 e)))).
+      apply (tail_move_Inv2 s i (CTail2 e) (CTail3 e) (s_map s) HI Hc); auto.
+      intros E. rewrite E in Em. simpl in Em. rewrite Nat.eqb_refl in Em. discriminate.
+  - (* CTail3 *)
+    inversion H; subst; clear H. unfold finish_clean. eapply clean_end_Inv2; eauto.
+Qed.
+
+Theorem step_Inv2 c s a s' l :
+  v2_repaired c -> Inv2 s -> polite s a -> step c s a = Some (s', l) -> Inv2 s'.
+Proof.
+  intros Hc HI Hp H. pose proof (v2_engine c Hc) as Hv. destruct a; unfold step in H.
+  - eapply call_step_Inv2; eauto.
+  - eapply user_step_Inv2; eauto.
+  - eapply waiter_step_Inv2; eauto.
+  - eapply clean_step_Inv2; eauto.
+  - eapply env_step_Inv2; eauto.
+  - eapply env_step_Inv2; eauto.
+  - eapply env_step_Inv2; eauto.
+  - eapply env_step_Inv2; eauto.
+  - eapply env_step_Inv2; eauto.
+  - eapply env_step_Inv2; eauto.
+  - eapply env_step_Inv2; eauto.
+  - eapply env_step_Inv2; eauto.
+Qed.
+
+Theorem run_Inv2 c acts : v2_repaired c ->
+  forall s s', Inv2 s -> polite_run c s acts -> run_acts c s acts = Some s' -> Inv2 s'.
+Proof.
+  intros Hc. induction acts as [|a t IH]; intros s s' HI Hp H; simpl in *.
+  - inversion H; subst; auto.
+  - destruct Hp as [Hpa Hpt]. destruct (step c s a) as [[s1 l]|] eqn:E; [|discriminate].
+    eapply IH; [|exact Hpt|exact H]. eapply step_Inv2; eauto.
+Qed.
+
+(* ------------------------------------------------------------------ *)
+(* v2: the connector guard is held only by a run whose source is open  *)
+Lemma GG_set s s' g :
+  s_guard s' = g -> s_next s' = s_next s ->
+  (forall j, g = Some j -> src_open (s_runs s' j) = true /\ j < s_next s) -> GG s'.
+Proof. intros E1 E2 H j Hj. rewrite E1 in Hj. rewrite E2. apply H. exact Hj. Qed.
+
+Lemma start_step_GG2 c s pc ch :
+  c_engine c = V2 -> GG s ->
+  match start_step c s pc ch with SNext s' _ _ | SFin s' _ _ => GG s' | SStuck => True end.
+Proof.
+  intros Hv HG. destruct (start_step c s pc ch) eqn:H; [| |exact I];
+    destruct pc; simpl in H; rewrite ?Hv in H; split_hyp H; inv_eqs; unfold rel_proc; simpl;
+    repeat match goal with |- context [if ?x then _ else _] => destruct x; simpl end;
+    try exact HG;
+    try (match goal with E : get_run _ _ = Some _ |- _ =>
+           pose proof E as E'; apply get_run_some in E'; subst;
+           unfold get_run in E; match type of E with (if ?b then _ else _) = _ => destruct b eqn:Elt; [apply Nat.ltb_lt in Elt|discriminate] end
+         end);
+    intros g Hg; simpl in *; unfold fupd;
+    try discriminate;
+    try (inversion Hg; subst; rewrite Nat.eqb_refl; simpl; auto; fail);
+    try (let A := fresh "A" in let B := fresh "B" in let Eg := fresh "Eg" in
+         destruct (HG g Hg) as [A B]; split; [|first [exact B|lia]];
+         match goal with |- context [Nat.eqb g ?r] => destruct (Nat.eqb g r) eqn:Eg end;
+         [apply Nat.eqb_eq in Eg; subst; first [exact A|exfalso; lia]|exact A]).
+Qed.
+
+Lemma step_GG2 c s a s' l : c_engine c = V2 -> G s -> GG s -> step c s a = Some (s', l) -> GG s'.
+Proof.
+  intros Hv HG0 HG H. pose proof (is_v1_v2 c Hv) as Hv1. destruct a; unfold step in H.
+  - unfold call_step in H. split_hyp H; try discriminate; inversion H; subst; clear H;
+      (eapply GG_ext; [| | |exact HG]; reflexivity).
+  - unfold user_step in H. destruct (s_user s) as [[[id k] pc]|] eqn:Hu; [|discriminate].
+    destruct pc as [q| |m sw|r m sw|r m sw| |r| |x].
+    + pose proof (start_step_GG2 c s q choice Hv HG) as HS.
+      destruct (start_step c s q choice) as [s1 pc1 l1|s1 x1 l1|]; [| |discriminate];
+        inversion H; subst; clear H; (eapply GG_ext; [| | |exact HS]; reflexivity).
+    + inversion H; subst; clear H. eapply GG_ext; [| | |exact HG]; reflexivity.
+    + split_hyp H; inversion H; subst; clear H; (eapply GG_ext; [| | |exact HG]; reflexivity).
+    + split_hyp H; inversion H; subst; clear H; (eapply GG_ext; [| | |exact HG]; reflexivity).
+    + rewrite Hv, ?Hv1 in H. destruct (get_run s r) as [x|] eqn:Er; [|discriminate].
+      apply get_run_some in Er. subst x.
+      split_hyp H; try discriminate; inversion H; subst; clear H;
+        try (eapply GG_ext; [| | |exact HG]; reflexivity);
+        try (eapply GG_ext; [| | |apply (GG_upd_same s r); [exact HG|]]; try reflexivity;
+             try (match goal with |- context [match ?p with PDead => _ | _ => _ end] => destruct p end; reflexivity); fail);
+        try (intros g Hg; simpl in Hg; discriminate).
+    + split_hyp H; inversion H; subst; clear H; (eapply GG_ext; [| | |exact HG]; reflexivity).
+    + split_hyp H; try discriminate; inversion H; subst; clear H; (eapply GG_ext; [| | |exact HG]; reflexivity).
+    + inversion H; subst; clear H. eapply GG_ext; [| | |exact HG]; reflexivity.
+    + inversion H; subst; clear H. eapply GG_ext; [| | |exact HG]; reflexivity.
+  - unfold waiter_step in H. split_hyp H; try discriminate; inversion H; subst; clear H;
+      (eapply GG_ext; [| | |exact HG]; reflexivity).
+  - unfold clean_step in H. destruct (get_run s r) as [x|] eqn:Er; [|discriminate].
+    apply get_run_some in Er. subst x.
+    destruct (s_cleans s r) as [pc|] eqn:Hc; [|discriminate].
+    destruct pc as [| | |q| |e|e|e].
+    4:{ pose proof (start_step_GG2 c s q choice Hv HG) as HS.
+        destruct (start_step c s q choice) as [s1 pc1 l1|s1 x1 l1|]; [| |discriminate].
+        - inversion H; subst; clear H. eapply GG_ext; [| | |exact HS]; reflexivity.
+        - destruct x1; split_hyp H; try discriminate; inversion H; subst; clear H;
+            try (eapply GG_ext; [| | |exact HS]; reflexivity).
+          match goal with E : get_run s1 r = Some ?x |- _ => apply get_run_some in E; subst end.
+          eapply GG_ext; [| | |apply (GG_upd_same s1 r); [exact HS|]]; reflexivity. }
+    all: rewrite ?Hv in H; split_hyp H; try discriminate; inversion H; subst; clear H;
+      try (eapply GG_ext; [| | |exact HG]; reflexivity).
+    all: unfold finish_clean; (eapply GG_ext; [| | |apply (GG_upd_same s r); [exact HG|]]; reflexivity).
+  - unfold env_step in H. rewrite Hv1 in H. destruct (get_run s r); discriminate.
+  - unfold env_step in H. rewrite Hv1 in H. destruct (get_run s r); discriminate.
+  - unfold env_step in H. rewrite Hv1 in H. destruct (get_run s r); discriminate.
+  - unfold env_step in H; destruct (get_run s r) as [x|] eqn:Er; try discriminate;
+       apply get_run_some in Er; subst x; split_hyp H; try discriminate; inversion H; subst; clear H.
+    apply GG_upd_same; [exact HG|reflexivity].
+  - unfold env_step in H; destruct (get_run s r) as [x|] eqn:Er; try discriminate;
+       apply get_run_some in Er; subst x; split_hyp H; try discriminate; inversion H; subst; clear H.
+    apply GG_upd_same; [exact HG|reflexivity].
+  - unfold env_step in H; destruct (get_run s r) as [x|] eqn:Er; try discriminate;
+       apply get_run_some in Er; subst x; split_hyp H; try discriminate; inversion H; subst; clear H.
+    intros g Hg. simpl in Hg. discriminate.
+  - unfold env_step in H; destruct (get_run s r) as [x|] eqn:Er; try discriminate;
+       apply get_run_some in Er; subst x; split_hyp H; try discriminate; inversion H; subst; clear H; bools.
+    all: unfold rel_proc; simpl; match goal with |- context [onat_eqb ?a ?b] => destruct (onat_eqb a b) end.
+    all: intros g Hg; simpl in *; destruct (HG g Hg) as [A B]; (split; [|exact B]); unfold fupd;
+         (destruct (Nat.eqb g r) eqn:E; [|exact A]); apply Nat.eqb_eq in E; subst g;
+         match goal with Hn : negb (src_open _) = true |- _ => rewrite A in Hn; discriminate end.
+  - unfold env_step in H. rewrite Hv1 in H. destruct (get_run s r); discriminate.
+Qed.
+
+Theorem run_Inv2_GG c acts : v2_repaired c ->
+  forall s s', Inv2 s -> G s -> GG s -> polite_run c s acts -> run_acts c s acts = Some s' -> Inv2 s' /\ GG s'.
+Proof.
+  intros Hc. induction acts as [|a t IH]; intros s s' HI HG0 HG Hp H; simpl in *.
+  - inversion H; subst; auto.
+  - destruct Hp as [Hpa Hpt]. destruct (step c s a) as [[s1 l]|] eqn:E; [|discriminate].
+    eapply IH; [| | |exact Hpt|exact H].
+    + eapply step_Inv2; eauto.
+    + eapply step_G; eauto.
+    + eapply step_GG2; eauto. apply (v2_engine c Hc).
+Qed.
+
+(* ------------------------------------------------------------------ *)
+(* consequences                                                        *)
+Lemma holder_exists2 s : Inv2 s -> stopped_b (s_status s) = false ->
+  user_holds s = true \/ exists i, holder s i = true.
+Proof.
+  intros HI Hs. destruct (user_holds s) eqn:Eu; [left; reflexivity|right].
+  destruct (find_below (fun i => holder s i) (s_next s)) as [Hall|[i [_ Hi]]]; [|exists i; exact Hi].
+  exfalso. assert (Hall' : forall i, holder s i = false).
+  { intros i. destruct (Nat.lt_ge_cases i (s_next s)) as [A|A]; [apply Hall; exact A|].
+    unfold holder. rewrite (j_range s HI i A). reflexivity. }
+  rewrite (j_idle s HI Eu Hall') in Hs. discriminate.
+Qed.
+
+(* running_implies_map_is_live: whenever the stored status is Running, the run map points at the run
+   that announced Running, and the tomb of that run is not dead *)
+Theorem running_implies_map_is_live_inv2 s :
+  Inv2 s -> s_status s = Running ->
+  exists r, s_map s = Some r /\ s_cur s = Some r /\ alive (s_runs s r).
+Proof.
+  intros HI Hs.
+  destruct (holder_exists2 s HI ltac:(rewrite Hs; reflexivity)) as [Hu|[i Hi]].
+  - exfalso. unfold user_holds in Hu. destruct (user_start s) as [pc|] eqn:E; [|discriminate].
+    pose proof (j_user s HI pc E) as Hp.
+    assert (Hpre : pre_status s false) by (apply (spc_pre s pc false Hp); right; intros ->; discriminate).
+    unfold pre_status in Hpre. rewrite Hs in Hpre. discriminate.
+  - unfold holder in Hi. destruct (s_cleans s i) as [pc|] eqn:E; [|discriminate].
+    pose proof (j_clean s HI i pc E) as [_ Hc].
+    destruct pc as [| | |q| |e|e|e]; try discriminate.
+    + rewrite Hi in Hc. destruct Hc as (A & _ & B & C). exists i. auto.
+    + destruct Hc as (_ & A & _). congruence.
+    + destruct Hc as (_ & A & _). congruence.
+    + exfalso. destruct Hc as (_ & Hp & _).
+      assert (Hpre : pre_status s true) by (apply (spc_pre s q true Hp); left; reflexivity).
+      unfold pre_status in Hpre. congruence.
+    + destruct Hc as (_ & A & _). congruence.
+Qed.
+
+Lemma quiescent_no_start s : Inv2 s -> quiescent s = true -> forall pc, ~ at_start s pc.
+Proof.
+  intros HI Hq. destruct (quiescent_facts s Hq) as [Hu Hf].
+  intros pc [H|[i H]].
+  - unfold user_start in H. rewrite Hu in H. discriminate.
+  - destruct (Nat.lt_ge_cases i (s_next s)) as [A|A].
+    + destruct (Hf i A) as [B _]. rewrite H in B. destruct B. discriminate.
+    + rewrite (j_range s HI i A) in H. discriminate.
+Qed.
+
+(* status_agrees_with_last_run_end *)
+Theorem status_agrees_inv2 s : Inv2 s -> quiescent s = true -> agrees s = true.
+Proof.
+  intros HI Hq. destruct (quiescent_facts s Hq) as [Hu Hf].
+  pose proof (quiescent_no_start s HI Hq) as Hns.
+  assert (Hnu : user_holds s = false) by (unfold user_holds, user_start; rewrite Hu; reflexivity).
+  (* every live run has its cleanup goroutine parked at CWait, past startupDone *)
+  assert (Hlive : forall i, i < s_next s -> is_live (s_runs s i) = true ->
+            s_cleans s i = Some CWait /\ r_started (s_runs s i) = true).
+  { intros i Hi Hl. pose proof (j_run s HI i Hi) as Hr. unfold run_ok2 in Hr.
+    rewrite (is_live_phase _ Hl) in Hr.
+    destruct (Hf i Hi) as [B _]. destruct (s_cleans s i) as [pc|] eqn:E; [|congruence]. destruct B as [-> _].
+    split; [reflexivity|]. pose proof (j_clean s HI i CWait E) as (_ & _ & C).
+    destruct (r_started (s_runs s i)); [reflexivity|]. exfalso. destruct C as [C|C]; eapply Hns; eauto. }
+  unfold agrees, live_runs.
+  destruct (filter (fun i => is_live (s_runs s i)) (ids s)) as [|i rest] eqn:El.
+  - assert (Hnone : forall i, holder s i = false).
+    { intros i. unfold holder. destruct (Nat.lt_ge_cases i (s_next s)) as [A|A]; [|rewrite (j_range s HI i A); reflexivity].
+      destruct (Hf i A) as [B _]. destruct (s_cleans s i) as [pc|] eqn:E; [|reflexivity].
+      destruct B as [-> Bl]. exfalso. rewrite filter_nil_iff in El.
+      rewrite (El i) in Bl; [discriminate|]. unfold ids. apply in_seq. lia. }
+    rewrite (j_idle s HI Hnu Hnone). simpl.
+    destruct (s_map s) as [m|] eqn:Em; [|reflexivity]. exfalso.
+    destruct (j_map s HI m Em) as [pc [Hc Hp]].
+    destruct (Nat.lt_ge_cases m (s_next s)) as [A|A]; [|rewrite (j_range s HI m A) in Hc; discriminate].
+    destruct (Hf m A) as [B _]. rewrite Hc in B. destruct B as [-> Bl].
+    rewrite filter_nil_iff in El. rewrite (El m) in Bl; [discriminate|]. unfold ids. apply in_seq. lia.
+  - assert (Hin : In i (ids s) /\ is_live (s_runs s i) = true).
+    { apply (filter_In (fun i0 => is_live (s_runs s i0)) i (ids s)). rewrite El. left. reflexivity. }
+    destruct Hin as [Hin Hli]. unfold ids in Hin. apply in_seq in Hin.
+    destruct (Hlive i ltac:(lia) Hli) as [Hci Hsi].
+    assert (Hhi : holder s i = true) by (unfold holder; rewrite Hci; exact Hsi).
+    assert (Hrest : rest = []).
+    { destruct rest as [|j rest']; [reflexivity|]. exfalso.
+      assert (Hj : In j (ids s) /\ is_live (s_runs s j) = true)
+        by (apply (filter_In (fun i0 => is_live (s_runs s i0)) j (ids s)); rewrite El; right; left; reflexivity).
+      destruct Hj as [Hj Hlj]. unfold ids in Hj. apply in_seq in Hj.
+      destruct (Hlive j ltac:(lia) Hlj) as [Hcj Hsj].
+      assert (i = j) by (apply (j_one s HI); [exact Hhi|unfold holder; rewrite Hcj; exact Hsj]). subst j.
+      assert (Hnd : NoDup (filter (fun i0 => is_live (s_runs s i0)) (ids s))) by (apply NoDup_filter; apply seq_NoDup).
+      rewrite El in Hnd. inversion Hnd. apply H1. left. reflexivity. }
+    subst rest. pose proof (j_clean s HI i CWait Hci) as (_ & _ & C). rewrite Hsi in C. destruct C as (A & B & _).
+    rewrite A, B. simpl. rewrite Nat.eqb_refl. reflexivity.
+Qed.
+
+(* teardown_releases_guards *)
+Theorem guards_released_inv2 s :
+  Inv2 s -> GG s -> quiescent s = true -> live_runs s = [] -> guards_free s = true.
+Proof.
+  intros HI HG Hq Hl. destruct (quiescent_facts s Hq) as [Hu Hf].
+  pose proof (quiescent_no_start s HI Hq) as Hns.
+  unfold live_runs in Hl. rewrite filter_nil_iff in Hl.
+  unfold guards_free. destruct (s_guard s) as [g|] eqn:Eg.
+  - exfalso. destruct (HG g Eg) as [A B]. destruct (j_live s HI g A) as [_ [C|[_ C]]].
+    + specialize (Hl g ltac:(unfold ids; apply in_seq; lia)). unfold is_live in Hl. rewrite C in Hl. discriminate.
+    + unfold live_witness in C. destruct C as [C|[C|C]]; eapply Hns; eauto.
+  - simpl. destruct (s_proc s) as [p|] eqn:Ep; [|reflexivity]. exfalso.
+    destruct (j_proc s HI p Ep) as [A [B|[_ [pc [_ B]]]]].
+    + specialize (Hl p ltac:(unfold ids; apply in_seq; lia)). unfold is_live in Hl. rewrite B in Hl. discriminate.
+    + eapply Hns; eauto.
 Qed.
